@@ -774,1556 +774,779 @@ import QrlModel.Proofs.Seg.H16Setup
 -- GENERATED by tools/mk_segcert.py 16 85 771 (committed; every equation below is re-checked by the kernel)
 namespace Qrl.BdsLabel.Seg16
 open Qrl.Bds
-def S : Nat → St Lbl
-  | 0 => S0
-  | 1 => S1
-  | 2 => S2
-  | 3 => S3
-  | 4 => S4
-  | 5 => S5
-  | 6 => S6
-  | 7 => S7
-  | 8 => S8
-  | 9 => S9
-  | 10 => S10
-  | 11 => S11
-  | 12 => S12
-  | 13 => S13
-  | 14 => S14
-  | 15 => S15
-  | 16 => S16
-  | 17 => S17
-  | 18 => S18
-  | 19 => S19
-  | 20 => S20
-  | 21 => S21
-  | 22 => S22
-  | 23 => S23
-  | 24 => S24
-  | 25 => S25
-  | 26 => S26
-  | 27 => S27
-  | 28 => S28
-  | 29 => S29
-  | 30 => S30
-  | 31 => S31
-  | 32 => S32
-  | 33 => S33
-  | 34 => S34
-  | 35 => S35
-  | 36 => S36
-  | 37 => S37
-  | 38 => S38
-  | 39 => S39
-  | 40 => S40
-  | 41 => S41
-  | 42 => S42
-  | 43 => S43
-  | 44 => S44
-  | 45 => S45
-  | 46 => S46
-  | 47 => S47
-  | 48 => S48
-  | 49 => S49
-  | 50 => S50
-  | 51 => S51
-  | 52 => S52
-  | 53 => S53
-  | 54 => S54
-  | 55 => S55
-  | 56 => S56
-  | 57 => S57
-  | 58 => S58
-  | 59 => S59
-  | 60 => S60
-  | 61 => S61
-  | 62 => S62
-  | 63 => S63
-  | 64 => S64
-  | 65 => S65
-  | 66 => S66
-  | 67 => S67
-  | 68 => S68
-  | 69 => S69
-  | 70 => S70
-  | 71 => S71
-  | 72 => S72
-  | 73 => S73
-  | 74 => S74
-  | 75 => S75
-  | 76 => S76
-  | 77 => S77
-  | 78 => S78
-  | 79 => S79
-  | 80 => S80
-  | 81 => S81
-  | 82 => S82
-  | 83 => S83
-  | 84 => S84
-  | 85 => S85
-  | 86 => S86
-  | 87 => S87
-  | 88 => S88
-  | 89 => S89
-  | 90 => S90
-  | 91 => S91
-  | 92 => S92
-  | 93 => S93
-  | 94 => S94
-  | 95 => S95
-  | 96 => S96
-  | 97 => S97
-  | 98 => S98
-  | 99 => S99
-  | 100 => S100
-  | 101 => S101
-  | 102 => S102
-  | 103 => S103
-  | 104 => S104
-  | 105 => S105
-  | 106 => S106
-  | 107 => S107
-  | 108 => S108
-  | 109 => S109
-  | 110 => S110
-  | 111 => S111
-  | 112 => S112
-  | 113 => S113
-  | 114 => S114
-  | 115 => S115
-  | 116 => S116
-  | 117 => S117
-  | 118 => S118
-  | 119 => S119
-  | 120 => S120
-  | 121 => S121
-  | 122 => S122
-  | 123 => S123
-  | 124 => S124
-  | 125 => S125
-  | 126 => S126
-  | 127 => S127
-  | 128 => S128
-  | 129 => S129
-  | 130 => S130
-  | 131 => S131
-  | 132 => S132
-  | 133 => S133
-  | 134 => S134
-  | 135 => S135
-  | 136 => S136
-  | 137 => S137
-  | 138 => S138
-  | 139 => S139
-  | 140 => S140
-  | 141 => S141
-  | 142 => S142
-  | 143 => S143
-  | 144 => S144
-  | 145 => S145
-  | 146 => S146
-  | 147 => S147
-  | 148 => S148
-  | 149 => S149
-  | 150 => S150
-  | 151 => S151
-  | 152 => S152
-  | 153 => S153
-  | 154 => S154
-  | 155 => S155
-  | 156 => S156
-  | 157 => S157
-  | 158 => S158
-  | 159 => S159
-  | 160 => S160
-  | 161 => S161
-  | 162 => S162
-  | 163 => S163
-  | 164 => S164
-  | 165 => S165
-  | 166 => S166
-  | 167 => S167
-  | 168 => S168
-  | 169 => S169
-  | 170 => S170
-  | 171 => S171
-  | 172 => S172
-  | 173 => S173
-  | 174 => S174
-  | 175 => S175
-  | 176 => S176
-  | 177 => S177
-  | 178 => S178
-  | 179 => S179
-  | 180 => S180
-  | 181 => S181
-  | 182 => S182
-  | 183 => S183
-  | 184 => S184
-  | 185 => S185
-  | 186 => S186
-  | 187 => S187
-  | 188 => S188
-  | 189 => S189
-  | 190 => S190
-  | 191 => S191
-  | 192 => S192
-  | 193 => S193
-  | 194 => S194
-  | 195 => S195
-  | 196 => S196
-  | 197 => S197
-  | 198 => S198
-  | 199 => S199
-  | 200 => S200
-  | 201 => S201
-  | 202 => S202
-  | 203 => S203
-  | 204 => S204
-  | 205 => S205
-  | 206 => S206
-  | 207 => S207
-  | 208 => S208
-  | 209 => S209
-  | 210 => S210
-  | 211 => S211
-  | 212 => S212
-  | 213 => S213
-  | 214 => S214
-  | 215 => S215
-  | 216 => S216
-  | 217 => S217
-  | 218 => S218
-  | 219 => S219
-  | 220 => S220
-  | 221 => S221
-  | 222 => S222
-  | 223 => S223
-  | 224 => S224
-  | 225 => S225
-  | 226 => S226
-  | 227 => S227
-  | 228 => S228
-  | 229 => S229
-  | 230 => S230
-  | 231 => S231
-  | 232 => S232
-  | 233 => S233
-  | 234 => S234
-  | 235 => S235
-  | 236 => S236
-  | 237 => S237
-  | 238 => S238
-  | 239 => S239
-  | 240 => S240
-  | 241 => S241
-  | 242 => S242
-  | 243 => S243
-  | 244 => S244
-  | 245 => S245
-  | 246 => S246
-  | 247 => S247
-  | 248 => S248
-  | 249 => S249
-  | 250 => S250
-  | 251 => S251
-  | 252 => S252
-  | 253 => S253
-  | 254 => S254
-  | 255 => S255
-  | 256 => S256
-  | 257 => S257
-  | 258 => S258
-  | 259 => S259
-  | 260 => S260
-  | 261 => S261
-  | 262 => S262
-  | 263 => S263
-  | 264 => S264
-  | 265 => S265
-  | 266 => S266
-  | 267 => S267
-  | 268 => S268
-  | 269 => S269
-  | 270 => S270
-  | 271 => S271
-  | 272 => S272
-  | 273 => S273
-  | 274 => S274
-  | 275 => S275
-  | 276 => S276
-  | 277 => S277
-  | 278 => S278
-  | 279 => S279
-  | 280 => S280
-  | 281 => S281
-  | 282 => S282
-  | 283 => S283
-  | 284 => S284
-  | 285 => S285
-  | 286 => S286
-  | 287 => S287
-  | 288 => S288
-  | 289 => S289
-  | 290 => S290
-  | 291 => S291
-  | 292 => S292
-  | 293 => S293
-  | 294 => S294
-  | 295 => S295
-  | 296 => S296
-  | 297 => S297
-  | 298 => S298
-  | 299 => S299
-  | 300 => S300
-  | 301 => S301
-  | 302 => S302
-  | 303 => S303
-  | 304 => S304
-  | 305 => S305
-  | 306 => S306
-  | 307 => S307
-  | 308 => S308
-  | 309 => S309
-  | 310 => S310
-  | 311 => S311
-  | 312 => S312
-  | 313 => S313
-  | 314 => S314
-  | 315 => S315
-  | 316 => S316
-  | 317 => S317
-  | 318 => S318
-  | 319 => S319
-  | 320 => S320
-  | 321 => S321
-  | 322 => S322
-  | 323 => S323
-  | 324 => S324
-  | 325 => S325
-  | 326 => S326
-  | 327 => S327
-  | 328 => S328
-  | 329 => S329
-  | 330 => S330
-  | 331 => S331
-  | 332 => S332
-  | 333 => S333
-  | 334 => S334
-  | 335 => S335
-  | 336 => S336
-  | 337 => S337
-  | 338 => S338
-  | 339 => S339
-  | 340 => S340
-  | 341 => S341
-  | 342 => S342
-  | 343 => S343
-  | 344 => S344
-  | 345 => S345
-  | 346 => S346
-  | 347 => S347
-  | 348 => S348
-  | 349 => S349
-  | 350 => S350
-  | 351 => S351
-  | 352 => S352
-  | 353 => S353
-  | 354 => S354
-  | 355 => S355
-  | 356 => S356
-  | 357 => S357
-  | 358 => S358
-  | 359 => S359
-  | 360 => S360
-  | 361 => S361
-  | 362 => S362
-  | 363 => S363
-  | 364 => S364
-  | 365 => S365
-  | 366 => S366
-  | 367 => S367
-  | 368 => S368
-  | 369 => S369
-  | 370 => S370
-  | 371 => S371
-  | 372 => S372
-  | 373 => S373
-  | 374 => S374
-  | 375 => S375
-  | 376 => S376
-  | 377 => S377
-  | 378 => S378
-  | 379 => S379
-  | 380 => S380
-  | 381 => S381
-  | 382 => S382
-  | 383 => S383
-  | 384 => S384
-  | 385 => S385
-  | 386 => S386
-  | 387 => S387
-  | 388 => S388
-  | 389 => S389
-  | 390 => S390
-  | 391 => S391
-  | 392 => S392
-  | 393 => S393
-  | 394 => S394
-  | 395 => S395
-  | 396 => S396
-  | 397 => S397
-  | 398 => S398
-  | 399 => S399
-  | 400 => S400
-  | 401 => S401
-  | 402 => S402
-  | 403 => S403
-  | 404 => S404
-  | 405 => S405
-  | 406 => S406
-  | 407 => S407
-  | 408 => S408
-  | 409 => S409
-  | 410 => S410
-  | 411 => S411
-  | 412 => S412
-  | 413 => S413
-  | 414 => S414
-  | 415 => S415
-  | 416 => S416
-  | 417 => S417
-  | 418 => S418
-  | 419 => S419
-  | 420 => S420
-  | 421 => S421
-  | 422 => S422
-  | 423 => S423
-  | 424 => S424
-  | 425 => S425
-  | 426 => S426
-  | 427 => S427
-  | 428 => S428
-  | 429 => S429
-  | 430 => S430
-  | 431 => S431
-  | 432 => S432
-  | 433 => S433
-  | 434 => S434
-  | 435 => S435
-  | 436 => S436
-  | 437 => S437
-  | 438 => S438
-  | 439 => S439
-  | 440 => S440
-  | 441 => S441
-  | 442 => S442
-  | 443 => S443
-  | 444 => S444
-  | 445 => S445
-  | 446 => S446
-  | 447 => S447
-  | 448 => S448
-  | 449 => S449
-  | 450 => S450
-  | 451 => S451
-  | 452 => S452
-  | 453 => S453
-  | 454 => S454
-  | 455 => S455
-  | 456 => S456
-  | 457 => S457
-  | 458 => S458
-  | 459 => S459
-  | 460 => S460
-  | 461 => S461
-  | 462 => S462
-  | 463 => S463
-  | 464 => S464
-  | 465 => S465
-  | 466 => S466
-  | 467 => S467
-  | 468 => S468
-  | 469 => S469
-  | 470 => S470
-  | 471 => S471
-  | 472 => S472
-  | 473 => S473
-  | 474 => S474
-  | 475 => S475
-  | 476 => S476
-  | 477 => S477
-  | 478 => S478
-  | 479 => S479
-  | 480 => S480
-  | 481 => S481
-  | 482 => S482
-  | 483 => S483
-  | 484 => S484
-  | 485 => S485
-  | 486 => S486
-  | 487 => S487
-  | 488 => S488
-  | 489 => S489
-  | 490 => S490
-  | 491 => S491
-  | 492 => S492
-  | 493 => S493
-  | 494 => S494
-  | 495 => S495
-  | 496 => S496
-  | 497 => S497
-  | 498 => S498
-  | 499 => S499
-  | 500 => S500
-  | 501 => S501
-  | 502 => S502
-  | 503 => S503
-  | 504 => S504
-  | 505 => S505
-  | 506 => S506
-  | 507 => S507
-  | 508 => S508
-  | 509 => S509
-  | 510 => S510
-  | 511 => S511
-  | 512 => S512
-  | 513 => S513
-  | 514 => S514
-  | 515 => S515
-  | 516 => S516
-  | 517 => S517
-  | 518 => S518
-  | 519 => S519
-  | 520 => S520
-  | 521 => S521
-  | 522 => S522
-  | 523 => S523
-  | 524 => S524
-  | 525 => S525
-  | 526 => S526
-  | 527 => S527
-  | 528 => S528
-  | 529 => S529
-  | 530 => S530
-  | 531 => S531
-  | 532 => S532
-  | 533 => S533
-  | 534 => S534
-  | 535 => S535
-  | 536 => S536
-  | 537 => S537
-  | 538 => S538
-  | 539 => S539
-  | 540 => S540
-  | 541 => S541
-  | 542 => S542
-  | 543 => S543
-  | 544 => S544
-  | 545 => S545
-  | 546 => S546
-  | 547 => S547
-  | 548 => S548
-  | 549 => S549
-  | 550 => S550
-  | 551 => S551
-  | 552 => S552
-  | 553 => S553
-  | 554 => S554
-  | 555 => S555
-  | 556 => S556
-  | 557 => S557
-  | 558 => S558
-  | 559 => S559
-  | 560 => S560
-  | 561 => S561
-  | 562 => S562
-  | 563 => S563
-  | 564 => S564
-  | 565 => S565
-  | 566 => S566
-  | 567 => S567
-  | 568 => S568
-  | 569 => S569
-  | 570 => S570
-  | 571 => S571
-  | 572 => S572
-  | 573 => S573
-  | 574 => S574
-  | 575 => S575
-  | 576 => S576
-  | 577 => S577
-  | 578 => S578
-  | 579 => S579
-  | 580 => S580
-  | 581 => S581
-  | 582 => S582
-  | 583 => S583
-  | 584 => S584
-  | 585 => S585
-  | 586 => S586
-  | 587 => S587
-  | 588 => S588
-  | 589 => S589
-  | 590 => S590
-  | 591 => S591
-  | 592 => S592
-  | 593 => S593
-  | 594 => S594
-  | 595 => S595
-  | 596 => S596
-  | 597 => S597
-  | 598 => S598
-  | 599 => S599
-  | 600 => S600
-  | 601 => S601
-  | 602 => S602
-  | 603 => S603
-  | 604 => S604
-  | 605 => S605
-  | 606 => S606
-  | 607 => S607
-  | 608 => S608
-  | 609 => S609
-  | 610 => S610
-  | 611 => S611
-  | 612 => S612
-  | 613 => S613
-  | 614 => S614
-  | 615 => S615
-  | 616 => S616
-  | 617 => S617
-  | 618 => S618
-  | 619 => S619
-  | 620 => S620
-  | 621 => S621
-  | 622 => S622
-  | 623 => S623
-  | 624 => S624
-  | 625 => S625
-  | 626 => S626
-  | 627 => S627
-  | 628 => S628
-  | 629 => S629
-  | 630 => S630
-  | 631 => S631
-  | 632 => S632
-  | 633 => S633
-  | 634 => S634
-  | 635 => S635
-  | 636 => S636
-  | 637 => S637
-  | 638 => S638
-  | 639 => S639
-  | 640 => S640
-  | 641 => S641
-  | 642 => S642
-  | 643 => S643
-  | 644 => S644
-  | 645 => S645
-  | 646 => S646
-  | 647 => S647
-  | 648 => S648
-  | 649 => S649
-  | 650 => S650
-  | 651 => S651
-  | 652 => S652
-  | 653 => S653
-  | 654 => S654
-  | 655 => S655
-  | 656 => S656
-  | 657 => S657
-  | 658 => S658
-  | 659 => S659
-  | 660 => S660
-  | 661 => S661
-  | 662 => S662
-  | 663 => S663
-  | 664 => S664
-  | 665 => S665
-  | 666 => S666
-  | 667 => S667
-  | 668 => S668
-  | 669 => S669
-  | 670 => S670
-  | 671 => S671
-  | 672 => S672
-  | 673 => S673
-  | 674 => S674
-  | 675 => S675
-  | 676 => S676
-  | 677 => S677
-  | 678 => S678
-  | 679 => S679
-  | 680 => S680
-  | 681 => S681
-  | 682 => S682
-  | 683 => S683
-  | 684 => S684
-  | 685 => S685
-  | 686 => S686
-  | 687 => S687
-  | 688 => S688
-  | 689 => S689
-  | 690 => S690
-  | 691 => S691
-  | 692 => S692
-  | 693 => S693
-  | 694 => S694
-  | 695 => S695
-  | 696 => S696
-  | 697 => S697
-  | 698 => S698
-  | 699 => S699
-  | 700 => S700
-  | 701 => S701
-  | 702 => S702
-  | 703 => S703
-  | 704 => S704
-  | 705 => S705
-  | 706 => S706
-  | 707 => S707
-  | 708 => S708
-  | 709 => S709
-  | 710 => S710
-  | 711 => S711
-  | 712 => S712
-  | 713 => S713
-  | 714 => S714
-  | 715 => S715
-  | 716 => S716
-  | 717 => S717
-  | 718 => S718
-  | 719 => S719
-  | 720 => S720
-  | 721 => S721
-  | 722 => S722
-  | 723 => S723
-  | 724 => S724
-  | 725 => S725
-  | 726 => S726
-  | 727 => S727
-  | 728 => S728
-  | 729 => S729
-  | 730 => S730
-  | 731 => S731
-  | 732 => S732
-  | 733 => S733
-  | 734 => S734
-  | 735 => S735
-  | 736 => S736
-  | 737 => S737
-  | 738 => S738
-  | 739 => S739
-  | 740 => S740
-  | 741 => S741
-  | 742 => S742
-  | 743 => S743
-  | 744 => S744
-  | 745 => S745
-  | 746 => S746
-  | 747 => S747
-  | 748 => S748
-  | 749 => S749
-  | 750 => S750
-  | 751 => S751
-  | 752 => S752
-  | 753 => S753
-  | 754 => S754
-  | 755 => S755
-  | 756 => S756
-  | 757 => S757
-  | 758 => S758
-  | 759 => S759
-  | 760 => S760
-  | 761 => S761
-  | 762 => S762
-  | 763 => S763
-  | 764 => S764
-  | 765 => S765
-  | 766 => S766
-  | 767 => S767
-  | 768 => S768
-  | 769 => S769
-  | 770 => S770
-  | 771 => S771
-  | _ => S771
-
-theorem segs : ∀ c, c < 771 → runSeg 16 85 (85 * c) (S c) = (S (c+1), true)
-  | 0, _ => seg0
-  | 1, _ => seg1
-  | 2, _ => seg2
-  | 3, _ => seg3
-  | 4, _ => seg4
-  | 5, _ => seg5
-  | 6, _ => seg6
-  | 7, _ => seg7
-  | 8, _ => seg8
-  | 9, _ => seg9
-  | 10, _ => seg10
-  | 11, _ => seg11
-  | 12, _ => seg12
-  | 13, _ => seg13
-  | 14, _ => seg14
-  | 15, _ => seg15
-  | 16, _ => seg16
-  | 17, _ => seg17
-  | 18, _ => seg18
-  | 19, _ => seg19
-  | 20, _ => seg20
-  | 21, _ => seg21
-  | 22, _ => seg22
-  | 23, _ => seg23
-  | 24, _ => seg24
-  | 25, _ => seg25
-  | 26, _ => seg26
-  | 27, _ => seg27
-  | 28, _ => seg28
-  | 29, _ => seg29
-  | 30, _ => seg30
-  | 31, _ => seg31
-  | 32, _ => seg32
-  | 33, _ => seg33
-  | 34, _ => seg34
-  | 35, _ => seg35
-  | 36, _ => seg36
-  | 37, _ => seg37
-  | 38, _ => seg38
-  | 39, _ => seg39
-  | 40, _ => seg40
-  | 41, _ => seg41
-  | 42, _ => seg42
-  | 43, _ => seg43
-  | 44, _ => seg44
-  | 45, _ => seg45
-  | 46, _ => seg46
-  | 47, _ => seg47
-  | 48, _ => seg48
-  | 49, _ => seg49
-  | 50, _ => seg50
-  | 51, _ => seg51
-  | 52, _ => seg52
-  | 53, _ => seg53
-  | 54, _ => seg54
-  | 55, _ => seg55
-  | 56, _ => seg56
-  | 57, _ => seg57
-  | 58, _ => seg58
-  | 59, _ => seg59
-  | 60, _ => seg60
-  | 61, _ => seg61
-  | 62, _ => seg62
-  | 63, _ => seg63
-  | 64, _ => seg64
-  | 65, _ => seg65
-  | 66, _ => seg66
-  | 67, _ => seg67
-  | 68, _ => seg68
-  | 69, _ => seg69
-  | 70, _ => seg70
-  | 71, _ => seg71
-  | 72, _ => seg72
-  | 73, _ => seg73
-  | 74, _ => seg74
-  | 75, _ => seg75
-  | 76, _ => seg76
-  | 77, _ => seg77
-  | 78, _ => seg78
-  | 79, _ => seg79
-  | 80, _ => seg80
-  | 81, _ => seg81
-  | 82, _ => seg82
-  | 83, _ => seg83
-  | 84, _ => seg84
-  | 85, _ => seg85
-  | 86, _ => seg86
-  | 87, _ => seg87
-  | 88, _ => seg88
-  | 89, _ => seg89
-  | 90, _ => seg90
-  | 91, _ => seg91
-  | 92, _ => seg92
-  | 93, _ => seg93
-  | 94, _ => seg94
-  | 95, _ => seg95
-  | 96, _ => seg96
-  | 97, _ => seg97
-  | 98, _ => seg98
-  | 99, _ => seg99
-  | 100, _ => seg100
-  | 101, _ => seg101
-  | 102, _ => seg102
-  | 103, _ => seg103
-  | 104, _ => seg104
-  | 105, _ => seg105
-  | 106, _ => seg106
-  | 107, _ => seg107
-  | 108, _ => seg108
-  | 109, _ => seg109
-  | 110, _ => seg110
-  | 111, _ => seg111
-  | 112, _ => seg112
-  | 113, _ => seg113
-  | 114, _ => seg114
-  | 115, _ => seg115
-  | 116, _ => seg116
-  | 117, _ => seg117
-  | 118, _ => seg118
-  | 119, _ => seg119
-  | 120, _ => seg120
-  | 121, _ => seg121
-  | 122, _ => seg122
-  | 123, _ => seg123
-  | 124, _ => seg124
-  | 125, _ => seg125
-  | 126, _ => seg126
-  | 127, _ => seg127
-  | 128, _ => seg128
-  | 129, _ => seg129
-  | 130, _ => seg130
-  | 131, _ => seg131
-  | 132, _ => seg132
-  | 133, _ => seg133
-  | 134, _ => seg134
-  | 135, _ => seg135
-  | 136, _ => seg136
-  | 137, _ => seg137
-  | 138, _ => seg138
-  | 139, _ => seg139
-  | 140, _ => seg140
-  | 141, _ => seg141
-  | 142, _ => seg142
-  | 143, _ => seg143
-  | 144, _ => seg144
-  | 145, _ => seg145
-  | 146, _ => seg146
-  | 147, _ => seg147
-  | 148, _ => seg148
-  | 149, _ => seg149
-  | 150, _ => seg150
-  | 151, _ => seg151
-  | 152, _ => seg152
-  | 153, _ => seg153
-  | 154, _ => seg154
-  | 155, _ => seg155
-  | 156, _ => seg156
-  | 157, _ => seg157
-  | 158, _ => seg158
-  | 159, _ => seg159
-  | 160, _ => seg160
-  | 161, _ => seg161
-  | 162, _ => seg162
-  | 163, _ => seg163
-  | 164, _ => seg164
-  | 165, _ => seg165
-  | 166, _ => seg166
-  | 167, _ => seg167
-  | 168, _ => seg168
-  | 169, _ => seg169
-  | 170, _ => seg170
-  | 171, _ => seg171
-  | 172, _ => seg172
-  | 173, _ => seg173
-  | 174, _ => seg174
-  | 175, _ => seg175
-  | 176, _ => seg176
-  | 177, _ => seg177
-  | 178, _ => seg178
-  | 179, _ => seg179
-  | 180, _ => seg180
-  | 181, _ => seg181
-  | 182, _ => seg182
-  | 183, _ => seg183
-  | 184, _ => seg184
-  | 185, _ => seg185
-  | 186, _ => seg186
-  | 187, _ => seg187
-  | 188, _ => seg188
-  | 189, _ => seg189
-  | 190, _ => seg190
-  | 191, _ => seg191
-  | 192, _ => seg192
-  | 193, _ => seg193
-  | 194, _ => seg194
-  | 195, _ => seg195
-  | 196, _ => seg196
-  | 197, _ => seg197
-  | 198, _ => seg198
-  | 199, _ => seg199
-  | 200, _ => seg200
-  | 201, _ => seg201
-  | 202, _ => seg202
-  | 203, _ => seg203
-  | 204, _ => seg204
-  | 205, _ => seg205
-  | 206, _ => seg206
-  | 207, _ => seg207
-  | 208, _ => seg208
-  | 209, _ => seg209
-  | 210, _ => seg210
-  | 211, _ => seg211
-  | 212, _ => seg212
-  | 213, _ => seg213
-  | 214, _ => seg214
-  | 215, _ => seg215
-  | 216, _ => seg216
-  | 217, _ => seg217
-  | 218, _ => seg218
-  | 219, _ => seg219
-  | 220, _ => seg220
-  | 221, _ => seg221
-  | 222, _ => seg222
-  | 223, _ => seg223
-  | 224, _ => seg224
-  | 225, _ => seg225
-  | 226, _ => seg226
-  | 227, _ => seg227
-  | 228, _ => seg228
-  | 229, _ => seg229
-  | 230, _ => seg230
-  | 231, _ => seg231
-  | 232, _ => seg232
-  | 233, _ => seg233
-  | 234, _ => seg234
-  | 235, _ => seg235
-  | 236, _ => seg236
-  | 237, _ => seg237
-  | 238, _ => seg238
-  | 239, _ => seg239
-  | 240, _ => seg240
-  | 241, _ => seg241
-  | 242, _ => seg242
-  | 243, _ => seg243
-  | 244, _ => seg244
-  | 245, _ => seg245
-  | 246, _ => seg246
-  | 247, _ => seg247
-  | 248, _ => seg248
-  | 249, _ => seg249
-  | 250, _ => seg250
-  | 251, _ => seg251
-  | 252, _ => seg252
-  | 253, _ => seg253
-  | 254, _ => seg254
-  | 255, _ => seg255
-  | 256, _ => seg256
-  | 257, _ => seg257
-  | 258, _ => seg258
-  | 259, _ => seg259
-  | 260, _ => seg260
-  | 261, _ => seg261
-  | 262, _ => seg262
-  | 263, _ => seg263
-  | 264, _ => seg264
-  | 265, _ => seg265
-  | 266, _ => seg266
-  | 267, _ => seg267
-  | 268, _ => seg268
-  | 269, _ => seg269
-  | 270, _ => seg270
-  | 271, _ => seg271
-  | 272, _ => seg272
-  | 273, _ => seg273
-  | 274, _ => seg274
-  | 275, _ => seg275
-  | 276, _ => seg276
-  | 277, _ => seg277
-  | 278, _ => seg278
-  | 279, _ => seg279
-  | 280, _ => seg280
-  | 281, _ => seg281
-  | 282, _ => seg282
-  | 283, _ => seg283
-  | 284, _ => seg284
-  | 285, _ => seg285
-  | 286, _ => seg286
-  | 287, _ => seg287
-  | 288, _ => seg288
-  | 289, _ => seg289
-  | 290, _ => seg290
-  | 291, _ => seg291
-  | 292, _ => seg292
-  | 293, _ => seg293
-  | 294, _ => seg294
-  | 295, _ => seg295
-  | 296, _ => seg296
-  | 297, _ => seg297
-  | 298, _ => seg298
-  | 299, _ => seg299
-  | 300, _ => seg300
-  | 301, _ => seg301
-  | 302, _ => seg302
-  | 303, _ => seg303
-  | 304, _ => seg304
-  | 305, _ => seg305
-  | 306, _ => seg306
-  | 307, _ => seg307
-  | 308, _ => seg308
-  | 309, _ => seg309
-  | 310, _ => seg310
-  | 311, _ => seg311
-  | 312, _ => seg312
-  | 313, _ => seg313
-  | 314, _ => seg314
-  | 315, _ => seg315
-  | 316, _ => seg316
-  | 317, _ => seg317
-  | 318, _ => seg318
-  | 319, _ => seg319
-  | 320, _ => seg320
-  | 321, _ => seg321
-  | 322, _ => seg322
-  | 323, _ => seg323
-  | 324, _ => seg324
-  | 325, _ => seg325
-  | 326, _ => seg326
-  | 327, _ => seg327
-  | 328, _ => seg328
-  | 329, _ => seg329
-  | 330, _ => seg330
-  | 331, _ => seg331
-  | 332, _ => seg332
-  | 333, _ => seg333
-  | 334, _ => seg334
-  | 335, _ => seg335
-  | 336, _ => seg336
-  | 337, _ => seg337
-  | 338, _ => seg338
-  | 339, _ => seg339
-  | 340, _ => seg340
-  | 341, _ => seg341
-  | 342, _ => seg342
-  | 343, _ => seg343
-  | 344, _ => seg344
-  | 345, _ => seg345
-  | 346, _ => seg346
-  | 347, _ => seg347
-  | 348, _ => seg348
-  | 349, _ => seg349
-  | 350, _ => seg350
-  | 351, _ => seg351
-  | 352, _ => seg352
-  | 353, _ => seg353
-  | 354, _ => seg354
-  | 355, _ => seg355
-  | 356, _ => seg356
-  | 357, _ => seg357
-  | 358, _ => seg358
-  | 359, _ => seg359
-  | 360, _ => seg360
-  | 361, _ => seg361
-  | 362, _ => seg362
-  | 363, _ => seg363
-  | 364, _ => seg364
-  | 365, _ => seg365
-  | 366, _ => seg366
-  | 367, _ => seg367
-  | 368, _ => seg368
-  | 369, _ => seg369
-  | 370, _ => seg370
-  | 371, _ => seg371
-  | 372, _ => seg372
-  | 373, _ => seg373
-  | 374, _ => seg374
-  | 375, _ => seg375
-  | 376, _ => seg376
-  | 377, _ => seg377
-  | 378, _ => seg378
-  | 379, _ => seg379
-  | 380, _ => seg380
-  | 381, _ => seg381
-  | 382, _ => seg382
-  | 383, _ => seg383
-  | 384, _ => seg384
-  | 385, _ => seg385
-  | 386, _ => seg386
-  | 387, _ => seg387
-  | 388, _ => seg388
-  | 389, _ => seg389
-  | 390, _ => seg390
-  | 391, _ => seg391
-  | 392, _ => seg392
-  | 393, _ => seg393
-  | 394, _ => seg394
-  | 395, _ => seg395
-  | 396, _ => seg396
-  | 397, _ => seg397
-  | 398, _ => seg398
-  | 399, _ => seg399
-  | 400, _ => seg400
-  | 401, _ => seg401
-  | 402, _ => seg402
-  | 403, _ => seg403
-  | 404, _ => seg404
-  | 405, _ => seg405
-  | 406, _ => seg406
-  | 407, _ => seg407
-  | 408, _ => seg408
-  | 409, _ => seg409
-  | 410, _ => seg410
-  | 411, _ => seg411
-  | 412, _ => seg412
-  | 413, _ => seg413
-  | 414, _ => seg414
-  | 415, _ => seg415
-  | 416, _ => seg416
-  | 417, _ => seg417
-  | 418, _ => seg418
-  | 419, _ => seg419
-  | 420, _ => seg420
-  | 421, _ => seg421
-  | 422, _ => seg422
-  | 423, _ => seg423
-  | 424, _ => seg424
-  | 425, _ => seg425
-  | 426, _ => seg426
-  | 427, _ => seg427
-  | 428, _ => seg428
-  | 429, _ => seg429
-  | 430, _ => seg430
-  | 431, _ => seg431
-  | 432, _ => seg432
-  | 433, _ => seg433
-  | 434, _ => seg434
-  | 435, _ => seg435
-  | 436, _ => seg436
-  | 437, _ => seg437
-  | 438, _ => seg438
-  | 439, _ => seg439
-  | 440, _ => seg440
-  | 441, _ => seg441
-  | 442, _ => seg442
-  | 443, _ => seg443
-  | 444, _ => seg444
-  | 445, _ => seg445
-  | 446, _ => seg446
-  | 447, _ => seg447
-  | 448, _ => seg448
-  | 449, _ => seg449
-  | 450, _ => seg450
-  | 451, _ => seg451
-  | 452, _ => seg452
-  | 453, _ => seg453
-  | 454, _ => seg454
-  | 455, _ => seg455
-  | 456, _ => seg456
-  | 457, _ => seg457
-  | 458, _ => seg458
-  | 459, _ => seg459
-  | 460, _ => seg460
-  | 461, _ => seg461
-  | 462, _ => seg462
-  | 463, _ => seg463
-  | 464, _ => seg464
-  | 465, _ => seg465
-  | 466, _ => seg466
-  | 467, _ => seg467
-  | 468, _ => seg468
-  | 469, _ => seg469
-  | 470, _ => seg470
-  | 471, _ => seg471
-  | 472, _ => seg472
-  | 473, _ => seg473
-  | 474, _ => seg474
-  | 475, _ => seg475
-  | 476, _ => seg476
-  | 477, _ => seg477
-  | 478, _ => seg478
-  | 479, _ => seg479
-  | 480, _ => seg480
-  | 481, _ => seg481
-  | 482, _ => seg482
-  | 483, _ => seg483
-  | 484, _ => seg484
-  | 485, _ => seg485
-  | 486, _ => seg486
-  | 487, _ => seg487
-  | 488, _ => seg488
-  | 489, _ => seg489
-  | 490, _ => seg490
-  | 491, _ => seg491
-  | 492, _ => seg492
-  | 493, _ => seg493
-  | 494, _ => seg494
-  | 495, _ => seg495
-  | 496, _ => seg496
-  | 497, _ => seg497
-  | 498, _ => seg498
-  | 499, _ => seg499
-  | 500, _ => seg500
-  | 501, _ => seg501
-  | 502, _ => seg502
-  | 503, _ => seg503
-  | 504, _ => seg504
-  | 505, _ => seg505
-  | 506, _ => seg506
-  | 507, _ => seg507
-  | 508, _ => seg508
-  | 509, _ => seg509
-  | 510, _ => seg510
-  | 511, _ => seg511
-  | 512, _ => seg512
-  | 513, _ => seg513
-  | 514, _ => seg514
-  | 515, _ => seg515
-  | 516, _ => seg516
-  | 517, _ => seg517
-  | 518, _ => seg518
-  | 519, _ => seg519
-  | 520, _ => seg520
-  | 521, _ => seg521
-  | 522, _ => seg522
-  | 523, _ => seg523
-  | 524, _ => seg524
-  | 525, _ => seg525
-  | 526, _ => seg526
-  | 527, _ => seg527
-  | 528, _ => seg528
-  | 529, _ => seg529
-  | 530, _ => seg530
-  | 531, _ => seg531
-  | 532, _ => seg532
-  | 533, _ => seg533
-  | 534, _ => seg534
-  | 535, _ => seg535
-  | 536, _ => seg536
-  | 537, _ => seg537
-  | 538, _ => seg538
-  | 539, _ => seg539
-  | 540, _ => seg540
-  | 541, _ => seg541
-  | 542, _ => seg542
-  | 543, _ => seg543
-  | 544, _ => seg544
-  | 545, _ => seg545
-  | 546, _ => seg546
-  | 547, _ => seg547
-  | 548, _ => seg548
-  | 549, _ => seg549
-  | 550, _ => seg550
-  | 551, _ => seg551
-  | 552, _ => seg552
-  | 553, _ => seg553
-  | 554, _ => seg554
-  | 555, _ => seg555
-  | 556, _ => seg556
-  | 557, _ => seg557
-  | 558, _ => seg558
-  | 559, _ => seg559
-  | 560, _ => seg560
-  | 561, _ => seg561
-  | 562, _ => seg562
-  | 563, _ => seg563
-  | 564, _ => seg564
-  | 565, _ => seg565
-  | 566, _ => seg566
-  | 567, _ => seg567
-  | 568, _ => seg568
-  | 569, _ => seg569
-  | 570, _ => seg570
-  | 571, _ => seg571
-  | 572, _ => seg572
-  | 573, _ => seg573
-  | 574, _ => seg574
-  | 575, _ => seg575
-  | 576, _ => seg576
-  | 577, _ => seg577
-  | 578, _ => seg578
-  | 579, _ => seg579
-  | 580, _ => seg580
-  | 581, _ => seg581
-  | 582, _ => seg582
-  | 583, _ => seg583
-  | 584, _ => seg584
-  | 585, _ => seg585
-  | 586, _ => seg586
-  | 587, _ => seg587
-  | 588, _ => seg588
-  | 589, _ => seg589
-  | 590, _ => seg590
-  | 591, _ => seg591
-  | 592, _ => seg592
-  | 593, _ => seg593
-  | 594, _ => seg594
-  | 595, _ => seg595
-  | 596, _ => seg596
-  | 597, _ => seg597
-  | 598, _ => seg598
-  | 599, _ => seg599
-  | 600, _ => seg600
-  | 601, _ => seg601
-  | 602, _ => seg602
-  | 603, _ => seg603
-  | 604, _ => seg604
-  | 605, _ => seg605
-  | 606, _ => seg606
-  | 607, _ => seg607
-  | 608, _ => seg608
-  | 609, _ => seg609
-  | 610, _ => seg610
-  | 611, _ => seg611
-  | 612, _ => seg612
-  | 613, _ => seg613
-  | 614, _ => seg614
-  | 615, _ => seg615
-  | 616, _ => seg616
-  | 617, _ => seg617
-  | 618, _ => seg618
-  | 619, _ => seg619
-  | 620, _ => seg620
-  | 621, _ => seg621
-  | 622, _ => seg622
-  | 623, _ => seg623
-  | 624, _ => seg624
-  | 625, _ => seg625
-  | 626, _ => seg626
-  | 627, _ => seg627
-  | 628, _ => seg628
-  | 629, _ => seg629
-  | 630, _ => seg630
-  | 631, _ => seg631
-  | 632, _ => seg632
-  | 633, _ => seg633
-  | 634, _ => seg634
-  | 635, _ => seg635
-  | 636, _ => seg636
-  | 637, _ => seg637
-  | 638, _ => seg638
-  | 639, _ => seg639
-  | 640, _ => seg640
-  | 641, _ => seg641
-  | 642, _ => seg642
-  | 643, _ => seg643
-  | 644, _ => seg644
-  | 645, _ => seg645
-  | 646, _ => seg646
-  | 647, _ => seg647
-  | 648, _ => seg648
-  | 649, _ => seg649
-  | 650, _ => seg650
-  | 651, _ => seg651
-  | 652, _ => seg652
-  | 653, _ => seg653
-  | 654, _ => seg654
-  | 655, _ => seg655
-  | 656, _ => seg656
-  | 657, _ => seg657
-  | 658, _ => seg658
-  | 659, _ => seg659
-  | 660, _ => seg660
-  | 661, _ => seg661
-  | 662, _ => seg662
-  | 663, _ => seg663
-  | 664, _ => seg664
-  | 665, _ => seg665
-  | 666, _ => seg666
-  | 667, _ => seg667
-  | 668, _ => seg668
-  | 669, _ => seg669
-  | 670, _ => seg670
-  | 671, _ => seg671
-  | 672, _ => seg672
-  | 673, _ => seg673
-  | 674, _ => seg674
-  | 675, _ => seg675
-  | 676, _ => seg676
-  | 677, _ => seg677
-  | 678, _ => seg678
-  | 679, _ => seg679
-  | 680, _ => seg680
-  | 681, _ => seg681
-  | 682, _ => seg682
-  | 683, _ => seg683
-  | 684, _ => seg684
-  | 685, _ => seg685
-  | 686, _ => seg686
-  | 687, _ => seg687
-  | 688, _ => seg688
-  | 689, _ => seg689
-  | 690, _ => seg690
-  | 691, _ => seg691
-  | 692, _ => seg692
-  | 693, _ => seg693
-  | 694, _ => seg694
-  | 695, _ => seg695
-  | 696, _ => seg696
-  | 697, _ => seg697
-  | 698, _ => seg698
-  | 699, _ => seg699
-  | 700, _ => seg700
-  | 701, _ => seg701
-  | 702, _ => seg702
-  | 703, _ => seg703
-  | 704, _ => seg704
-  | 705, _ => seg705
-  | 706, _ => seg706
-  | 707, _ => seg707
-  | 708, _ => seg708
-  | 709, _ => seg709
-  | 710, _ => seg710
-  | 711, _ => seg711
-  | 712, _ => seg712
-  | 713, _ => seg713
-  | 714, _ => seg714
-  | 715, _ => seg715
-  | 716, _ => seg716
-  | 717, _ => seg717
-  | 718, _ => seg718
-  | 719, _ => seg719
-  | 720, _ => seg720
-  | 721, _ => seg721
-  | 722, _ => seg722
-  | 723, _ => seg723
-  | 724, _ => seg724
-  | 725, _ => seg725
-  | 726, _ => seg726
-  | 727, _ => seg727
-  | 728, _ => seg728
-  | 729, _ => seg729
-  | 730, _ => seg730
-  | 731, _ => seg731
-  | 732, _ => seg732
-  | 733, _ => seg733
-  | 734, _ => seg734
-  | 735, _ => seg735
-  | 736, _ => seg736
-  | 737, _ => seg737
-  | 738, _ => seg738
-  | 739, _ => seg739
-  | 740, _ => seg740
-  | 741, _ => seg741
-  | 742, _ => seg742
-  | 743, _ => seg743
-  | 744, _ => seg744
-  | 745, _ => seg745
-  | 746, _ => seg746
-  | 747, _ => seg747
-  | 748, _ => seg748
-  | 749, _ => seg749
-  | 750, _ => seg750
-  | 751, _ => seg751
-  | 752, _ => seg752
-  | 753, _ => seg753
-  | 754, _ => seg754
-  | 755, _ => seg755
-  | 756, _ => seg756
-  | 757, _ => seg757
-  | 758, _ => seg758
-  | 759, _ => seg759
-  | 760, _ => seg760
-  | 761, _ => seg761
-  | 762, _ => seg762
-  | 763, _ => seg763
-  | 764, _ => seg764
-  | 765, _ => seg765
-  | 766, _ => seg766
-  | 767, _ => seg767
-  | 768, _ => seg768
-  | 769, _ => seg769
-  | 770, _ => seg770
-  | c+771, hc => by omega
+theorem run1 : runSeg 16 85 0 S0 = (S1, true) := seg0
+theorem run2 : runSeg 16 170 0 S0 = (S2, true) := runSeg_comp 16 85 85 0 S0 S1 S2 run1 seg1
+theorem run3 : runSeg 16 255 0 S0 = (S3, true) := runSeg_comp 16 170 85 0 S0 S2 S3 run2 seg2
+theorem run4 : runSeg 16 340 0 S0 = (S4, true) := runSeg_comp 16 255 85 0 S0 S3 S4 run3 seg3
+theorem run5 : runSeg 16 425 0 S0 = (S5, true) := runSeg_comp 16 340 85 0 S0 S4 S5 run4 seg4
+theorem run6 : runSeg 16 510 0 S0 = (S6, true) := runSeg_comp 16 425 85 0 S0 S5 S6 run5 seg5
+theorem run7 : runSeg 16 595 0 S0 = (S7, true) := runSeg_comp 16 510 85 0 S0 S6 S7 run6 seg6
+theorem run8 : runSeg 16 680 0 S0 = (S8, true) := runSeg_comp 16 595 85 0 S0 S7 S8 run7 seg7
+theorem run9 : runSeg 16 765 0 S0 = (S9, true) := runSeg_comp 16 680 85 0 S0 S8 S9 run8 seg8
+theorem run10 : runSeg 16 850 0 S0 = (S10, true) := runSeg_comp 16 765 85 0 S0 S9 S10 run9 seg9
+theorem run11 : runSeg 16 935 0 S0 = (S11, true) := runSeg_comp 16 850 85 0 S0 S10 S11 run10 seg10
+theorem run12 : runSeg 16 1020 0 S0 = (S12, true) := runSeg_comp 16 935 85 0 S0 S11 S12 run11 seg11
+theorem run13 : runSeg 16 1105 0 S0 = (S13, true) := runSeg_comp 16 1020 85 0 S0 S12 S13 run12 seg12
+theorem run14 : runSeg 16 1190 0 S0 = (S14, true) := runSeg_comp 16 1105 85 0 S0 S13 S14 run13 seg13
+theorem run15 : runSeg 16 1275 0 S0 = (S15, true) := runSeg_comp 16 1190 85 0 S0 S14 S15 run14 seg14
+theorem run16 : runSeg 16 1360 0 S0 = (S16, true) := runSeg_comp 16 1275 85 0 S0 S15 S16 run15 seg15
+theorem run17 : runSeg 16 1445 0 S0 = (S17, true) := runSeg_comp 16 1360 85 0 S0 S16 S17 run16 seg16
+theorem run18 : runSeg 16 1530 0 S0 = (S18, true) := runSeg_comp 16 1445 85 0 S0 S17 S18 run17 seg17
+theorem run19 : runSeg 16 1615 0 S0 = (S19, true) := runSeg_comp 16 1530 85 0 S0 S18 S19 run18 seg18
+theorem run20 : runSeg 16 1700 0 S0 = (S20, true) := runSeg_comp 16 1615 85 0 S0 S19 S20 run19 seg19
+theorem run21 : runSeg 16 1785 0 S0 = (S21, true) := runSeg_comp 16 1700 85 0 S0 S20 S21 run20 seg20
+theorem run22 : runSeg 16 1870 0 S0 = (S22, true) := runSeg_comp 16 1785 85 0 S0 S21 S22 run21 seg21
+theorem run23 : runSeg 16 1955 0 S0 = (S23, true) := runSeg_comp 16 1870 85 0 S0 S22 S23 run22 seg22
+theorem run24 : runSeg 16 2040 0 S0 = (S24, true) := runSeg_comp 16 1955 85 0 S0 S23 S24 run23 seg23
+theorem run25 : runSeg 16 2125 0 S0 = (S25, true) := runSeg_comp 16 2040 85 0 S0 S24 S25 run24 seg24
+theorem run26 : runSeg 16 2210 0 S0 = (S26, true) := runSeg_comp 16 2125 85 0 S0 S25 S26 run25 seg25
+theorem run27 : runSeg 16 2295 0 S0 = (S27, true) := runSeg_comp 16 2210 85 0 S0 S26 S27 run26 seg26
+theorem run28 : runSeg 16 2380 0 S0 = (S28, true) := runSeg_comp 16 2295 85 0 S0 S27 S28 run27 seg27
+theorem run29 : runSeg 16 2465 0 S0 = (S29, true) := runSeg_comp 16 2380 85 0 S0 S28 S29 run28 seg28
+theorem run30 : runSeg 16 2550 0 S0 = (S30, true) := runSeg_comp 16 2465 85 0 S0 S29 S30 run29 seg29
+theorem run31 : runSeg 16 2635 0 S0 = (S31, true) := runSeg_comp 16 2550 85 0 S0 S30 S31 run30 seg30
+theorem run32 : runSeg 16 2720 0 S0 = (S32, true) := runSeg_comp 16 2635 85 0 S0 S31 S32 run31 seg31
+theorem run33 : runSeg 16 2805 0 S0 = (S33, true) := runSeg_comp 16 2720 85 0 S0 S32 S33 run32 seg32
+theorem run34 : runSeg 16 2890 0 S0 = (S34, true) := runSeg_comp 16 2805 85 0 S0 S33 S34 run33 seg33
+theorem run35 : runSeg 16 2975 0 S0 = (S35, true) := runSeg_comp 16 2890 85 0 S0 S34 S35 run34 seg34
+theorem run36 : runSeg 16 3060 0 S0 = (S36, true) := runSeg_comp 16 2975 85 0 S0 S35 S36 run35 seg35
+theorem run37 : runSeg 16 3145 0 S0 = (S37, true) := runSeg_comp 16 3060 85 0 S0 S36 S37 run36 seg36
+theorem run38 : runSeg 16 3230 0 S0 = (S38, true) := runSeg_comp 16 3145 85 0 S0 S37 S38 run37 seg37
+theorem run39 : runSeg 16 3315 0 S0 = (S39, true) := runSeg_comp 16 3230 85 0 S0 S38 S39 run38 seg38
+theorem run40 : runSeg 16 3400 0 S0 = (S40, true) := runSeg_comp 16 3315 85 0 S0 S39 S40 run39 seg39
+theorem run41 : runSeg 16 3485 0 S0 = (S41, true) := runSeg_comp 16 3400 85 0 S0 S40 S41 run40 seg40
+theorem run42 : runSeg 16 3570 0 S0 = (S42, true) := runSeg_comp 16 3485 85 0 S0 S41 S42 run41 seg41
+theorem run43 : runSeg 16 3655 0 S0 = (S43, true) := runSeg_comp 16 3570 85 0 S0 S42 S43 run42 seg42
+theorem run44 : runSeg 16 3740 0 S0 = (S44, true) := runSeg_comp 16 3655 85 0 S0 S43 S44 run43 seg43
+theorem run45 : runSeg 16 3825 0 S0 = (S45, true) := runSeg_comp 16 3740 85 0 S0 S44 S45 run44 seg44
+theorem run46 : runSeg 16 3910 0 S0 = (S46, true) := runSeg_comp 16 3825 85 0 S0 S45 S46 run45 seg45
+theorem run47 : runSeg 16 3995 0 S0 = (S47, true) := runSeg_comp 16 3910 85 0 S0 S46 S47 run46 seg46
+theorem run48 : runSeg 16 4080 0 S0 = (S48, true) := runSeg_comp 16 3995 85 0 S0 S47 S48 run47 seg47
+theorem run49 : runSeg 16 4165 0 S0 = (S49, true) := runSeg_comp 16 4080 85 0 S0 S48 S49 run48 seg48
+theorem run50 : runSeg 16 4250 0 S0 = (S50, true) := runSeg_comp 16 4165 85 0 S0 S49 S50 run49 seg49
+theorem run51 : runSeg 16 4335 0 S0 = (S51, true) := runSeg_comp 16 4250 85 0 S0 S50 S51 run50 seg50
+theorem run52 : runSeg 16 4420 0 S0 = (S52, true) := runSeg_comp 16 4335 85 0 S0 S51 S52 run51 seg51
+theorem run53 : runSeg 16 4505 0 S0 = (S53, true) := runSeg_comp 16 4420 85 0 S0 S52 S53 run52 seg52
+theorem run54 : runSeg 16 4590 0 S0 = (S54, true) := runSeg_comp 16 4505 85 0 S0 S53 S54 run53 seg53
+theorem run55 : runSeg 16 4675 0 S0 = (S55, true) := runSeg_comp 16 4590 85 0 S0 S54 S55 run54 seg54
+theorem run56 : runSeg 16 4760 0 S0 = (S56, true) := runSeg_comp 16 4675 85 0 S0 S55 S56 run55 seg55
+theorem run57 : runSeg 16 4845 0 S0 = (S57, true) := runSeg_comp 16 4760 85 0 S0 S56 S57 run56 seg56
+theorem run58 : runSeg 16 4930 0 S0 = (S58, true) := runSeg_comp 16 4845 85 0 S0 S57 S58 run57 seg57
+theorem run59 : runSeg 16 5015 0 S0 = (S59, true) := runSeg_comp 16 4930 85 0 S0 S58 S59 run58 seg58
+theorem run60 : runSeg 16 5100 0 S0 = (S60, true) := runSeg_comp 16 5015 85 0 S0 S59 S60 run59 seg59
+theorem run61 : runSeg 16 5185 0 S0 = (S61, true) := runSeg_comp 16 5100 85 0 S0 S60 S61 run60 seg60
+theorem run62 : runSeg 16 5270 0 S0 = (S62, true) := runSeg_comp 16 5185 85 0 S0 S61 S62 run61 seg61
+theorem run63 : runSeg 16 5355 0 S0 = (S63, true) := runSeg_comp 16 5270 85 0 S0 S62 S63 run62 seg62
+theorem run64 : runSeg 16 5440 0 S0 = (S64, true) := runSeg_comp 16 5355 85 0 S0 S63 S64 run63 seg63
+theorem run65 : runSeg 16 5525 0 S0 = (S65, true) := runSeg_comp 16 5440 85 0 S0 S64 S65 run64 seg64
+theorem run66 : runSeg 16 5610 0 S0 = (S66, true) := runSeg_comp 16 5525 85 0 S0 S65 S66 run65 seg65
+theorem run67 : runSeg 16 5695 0 S0 = (S67, true) := runSeg_comp 16 5610 85 0 S0 S66 S67 run66 seg66
+theorem run68 : runSeg 16 5780 0 S0 = (S68, true) := runSeg_comp 16 5695 85 0 S0 S67 S68 run67 seg67
+theorem run69 : runSeg 16 5865 0 S0 = (S69, true) := runSeg_comp 16 5780 85 0 S0 S68 S69 run68 seg68
+theorem run70 : runSeg 16 5950 0 S0 = (S70, true) := runSeg_comp 16 5865 85 0 S0 S69 S70 run69 seg69
+theorem run71 : runSeg 16 6035 0 S0 = (S71, true) := runSeg_comp 16 5950 85 0 S0 S70 S71 run70 seg70
+theorem run72 : runSeg 16 6120 0 S0 = (S72, true) := runSeg_comp 16 6035 85 0 S0 S71 S72 run71 seg71
+theorem run73 : runSeg 16 6205 0 S0 = (S73, true) := runSeg_comp 16 6120 85 0 S0 S72 S73 run72 seg72
+theorem run74 : runSeg 16 6290 0 S0 = (S74, true) := runSeg_comp 16 6205 85 0 S0 S73 S74 run73 seg73
+theorem run75 : runSeg 16 6375 0 S0 = (S75, true) := runSeg_comp 16 6290 85 0 S0 S74 S75 run74 seg74
+theorem run76 : runSeg 16 6460 0 S0 = (S76, true) := runSeg_comp 16 6375 85 0 S0 S75 S76 run75 seg75
+theorem run77 : runSeg 16 6545 0 S0 = (S77, true) := runSeg_comp 16 6460 85 0 S0 S76 S77 run76 seg76
+theorem run78 : runSeg 16 6630 0 S0 = (S78, true) := runSeg_comp 16 6545 85 0 S0 S77 S78 run77 seg77
+theorem run79 : runSeg 16 6715 0 S0 = (S79, true) := runSeg_comp 16 6630 85 0 S0 S78 S79 run78 seg78
+theorem run80 : runSeg 16 6800 0 S0 = (S80, true) := runSeg_comp 16 6715 85 0 S0 S79 S80 run79 seg79
+theorem run81 : runSeg 16 6885 0 S0 = (S81, true) := runSeg_comp 16 6800 85 0 S0 S80 S81 run80 seg80
+theorem run82 : runSeg 16 6970 0 S0 = (S82, true) := runSeg_comp 16 6885 85 0 S0 S81 S82 run81 seg81
+theorem run83 : runSeg 16 7055 0 S0 = (S83, true) := runSeg_comp 16 6970 85 0 S0 S82 S83 run82 seg82
+theorem run84 : runSeg 16 7140 0 S0 = (S84, true) := runSeg_comp 16 7055 85 0 S0 S83 S84 run83 seg83
+theorem run85 : runSeg 16 7225 0 S0 = (S85, true) := runSeg_comp 16 7140 85 0 S0 S84 S85 run84 seg84
+theorem run86 : runSeg 16 7310 0 S0 = (S86, true) := runSeg_comp 16 7225 85 0 S0 S85 S86 run85 seg85
+theorem run87 : runSeg 16 7395 0 S0 = (S87, true) := runSeg_comp 16 7310 85 0 S0 S86 S87 run86 seg86
+theorem run88 : runSeg 16 7480 0 S0 = (S88, true) := runSeg_comp 16 7395 85 0 S0 S87 S88 run87 seg87
+theorem run89 : runSeg 16 7565 0 S0 = (S89, true) := runSeg_comp 16 7480 85 0 S0 S88 S89 run88 seg88
+theorem run90 : runSeg 16 7650 0 S0 = (S90, true) := runSeg_comp 16 7565 85 0 S0 S89 S90 run89 seg89
+theorem run91 : runSeg 16 7735 0 S0 = (S91, true) := runSeg_comp 16 7650 85 0 S0 S90 S91 run90 seg90
+theorem run92 : runSeg 16 7820 0 S0 = (S92, true) := runSeg_comp 16 7735 85 0 S0 S91 S92 run91 seg91
+theorem run93 : runSeg 16 7905 0 S0 = (S93, true) := runSeg_comp 16 7820 85 0 S0 S92 S93 run92 seg92
+theorem run94 : runSeg 16 7990 0 S0 = (S94, true) := runSeg_comp 16 7905 85 0 S0 S93 S94 run93 seg93
+theorem run95 : runSeg 16 8075 0 S0 = (S95, true) := runSeg_comp 16 7990 85 0 S0 S94 S95 run94 seg94
+theorem run96 : runSeg 16 8160 0 S0 = (S96, true) := runSeg_comp 16 8075 85 0 S0 S95 S96 run95 seg95
+theorem run97 : runSeg 16 8245 0 S0 = (S97, true) := runSeg_comp 16 8160 85 0 S0 S96 S97 run96 seg96
+theorem run98 : runSeg 16 8330 0 S0 = (S98, true) := runSeg_comp 16 8245 85 0 S0 S97 S98 run97 seg97
+theorem run99 : runSeg 16 8415 0 S0 = (S99, true) := runSeg_comp 16 8330 85 0 S0 S98 S99 run98 seg98
+theorem run100 : runSeg 16 8500 0 S0 = (S100, true) := runSeg_comp 16 8415 85 0 S0 S99 S100 run99 seg99
+theorem run101 : runSeg 16 8585 0 S0 = (S101, true) := runSeg_comp 16 8500 85 0 S0 S100 S101 run100 seg100
+theorem run102 : runSeg 16 8670 0 S0 = (S102, true) := runSeg_comp 16 8585 85 0 S0 S101 S102 run101 seg101
+theorem run103 : runSeg 16 8755 0 S0 = (S103, true) := runSeg_comp 16 8670 85 0 S0 S102 S103 run102 seg102
+theorem run104 : runSeg 16 8840 0 S0 = (S104, true) := runSeg_comp 16 8755 85 0 S0 S103 S104 run103 seg103
+theorem run105 : runSeg 16 8925 0 S0 = (S105, true) := runSeg_comp 16 8840 85 0 S0 S104 S105 run104 seg104
+theorem run106 : runSeg 16 9010 0 S0 = (S106, true) := runSeg_comp 16 8925 85 0 S0 S105 S106 run105 seg105
+theorem run107 : runSeg 16 9095 0 S0 = (S107, true) := runSeg_comp 16 9010 85 0 S0 S106 S107 run106 seg106
+theorem run108 : runSeg 16 9180 0 S0 = (S108, true) := runSeg_comp 16 9095 85 0 S0 S107 S108 run107 seg107
+theorem run109 : runSeg 16 9265 0 S0 = (S109, true) := runSeg_comp 16 9180 85 0 S0 S108 S109 run108 seg108
+theorem run110 : runSeg 16 9350 0 S0 = (S110, true) := runSeg_comp 16 9265 85 0 S0 S109 S110 run109 seg109
+theorem run111 : runSeg 16 9435 0 S0 = (S111, true) := runSeg_comp 16 9350 85 0 S0 S110 S111 run110 seg110
+theorem run112 : runSeg 16 9520 0 S0 = (S112, true) := runSeg_comp 16 9435 85 0 S0 S111 S112 run111 seg111
+theorem run113 : runSeg 16 9605 0 S0 = (S113, true) := runSeg_comp 16 9520 85 0 S0 S112 S113 run112 seg112
+theorem run114 : runSeg 16 9690 0 S0 = (S114, true) := runSeg_comp 16 9605 85 0 S0 S113 S114 run113 seg113
+theorem run115 : runSeg 16 9775 0 S0 = (S115, true) := runSeg_comp 16 9690 85 0 S0 S114 S115 run114 seg114
+theorem run116 : runSeg 16 9860 0 S0 = (S116, true) := runSeg_comp 16 9775 85 0 S0 S115 S116 run115 seg115
+theorem run117 : runSeg 16 9945 0 S0 = (S117, true) := runSeg_comp 16 9860 85 0 S0 S116 S117 run116 seg116
+theorem run118 : runSeg 16 10030 0 S0 = (S118, true) := runSeg_comp 16 9945 85 0 S0 S117 S118 run117 seg117
+theorem run119 : runSeg 16 10115 0 S0 = (S119, true) := runSeg_comp 16 10030 85 0 S0 S118 S119 run118 seg118
+theorem run120 : runSeg 16 10200 0 S0 = (S120, true) := runSeg_comp 16 10115 85 0 S0 S119 S120 run119 seg119
+theorem run121 : runSeg 16 10285 0 S0 = (S121, true) := runSeg_comp 16 10200 85 0 S0 S120 S121 run120 seg120
+theorem run122 : runSeg 16 10370 0 S0 = (S122, true) := runSeg_comp 16 10285 85 0 S0 S121 S122 run121 seg121
+theorem run123 : runSeg 16 10455 0 S0 = (S123, true) := runSeg_comp 16 10370 85 0 S0 S122 S123 run122 seg122
+theorem run124 : runSeg 16 10540 0 S0 = (S124, true) := runSeg_comp 16 10455 85 0 S0 S123 S124 run123 seg123
+theorem run125 : runSeg 16 10625 0 S0 = (S125, true) := runSeg_comp 16 10540 85 0 S0 S124 S125 run124 seg124
+theorem run126 : runSeg 16 10710 0 S0 = (S126, true) := runSeg_comp 16 10625 85 0 S0 S125 S126 run125 seg125
+theorem run127 : runSeg 16 10795 0 S0 = (S127, true) := runSeg_comp 16 10710 85 0 S0 S126 S127 run126 seg126
+theorem run128 : runSeg 16 10880 0 S0 = (S128, true) := runSeg_comp 16 10795 85 0 S0 S127 S128 run127 seg127
+theorem run129 : runSeg 16 10965 0 S0 = (S129, true) := runSeg_comp 16 10880 85 0 S0 S128 S129 run128 seg128
+theorem run130 : runSeg 16 11050 0 S0 = (S130, true) := runSeg_comp 16 10965 85 0 S0 S129 S130 run129 seg129
+theorem run131 : runSeg 16 11135 0 S0 = (S131, true) := runSeg_comp 16 11050 85 0 S0 S130 S131 run130 seg130
+theorem run132 : runSeg 16 11220 0 S0 = (S132, true) := runSeg_comp 16 11135 85 0 S0 S131 S132 run131 seg131
+theorem run133 : runSeg 16 11305 0 S0 = (S133, true) := runSeg_comp 16 11220 85 0 S0 S132 S133 run132 seg132
+theorem run134 : runSeg 16 11390 0 S0 = (S134, true) := runSeg_comp 16 11305 85 0 S0 S133 S134 run133 seg133
+theorem run135 : runSeg 16 11475 0 S0 = (S135, true) := runSeg_comp 16 11390 85 0 S0 S134 S135 run134 seg134
+theorem run136 : runSeg 16 11560 0 S0 = (S136, true) := runSeg_comp 16 11475 85 0 S0 S135 S136 run135 seg135
+theorem run137 : runSeg 16 11645 0 S0 = (S137, true) := runSeg_comp 16 11560 85 0 S0 S136 S137 run136 seg136
+theorem run138 : runSeg 16 11730 0 S0 = (S138, true) := runSeg_comp 16 11645 85 0 S0 S137 S138 run137 seg137
+theorem run139 : runSeg 16 11815 0 S0 = (S139, true) := runSeg_comp 16 11730 85 0 S0 S138 S139 run138 seg138
+theorem run140 : runSeg 16 11900 0 S0 = (S140, true) := runSeg_comp 16 11815 85 0 S0 S139 S140 run139 seg139
+theorem run141 : runSeg 16 11985 0 S0 = (S141, true) := runSeg_comp 16 11900 85 0 S0 S140 S141 run140 seg140
+theorem run142 : runSeg 16 12070 0 S0 = (S142, true) := runSeg_comp 16 11985 85 0 S0 S141 S142 run141 seg141
+theorem run143 : runSeg 16 12155 0 S0 = (S143, true) := runSeg_comp 16 12070 85 0 S0 S142 S143 run142 seg142
+theorem run144 : runSeg 16 12240 0 S0 = (S144, true) := runSeg_comp 16 12155 85 0 S0 S143 S144 run143 seg143
+theorem run145 : runSeg 16 12325 0 S0 = (S145, true) := runSeg_comp 16 12240 85 0 S0 S144 S145 run144 seg144
+theorem run146 : runSeg 16 12410 0 S0 = (S146, true) := runSeg_comp 16 12325 85 0 S0 S145 S146 run145 seg145
+theorem run147 : runSeg 16 12495 0 S0 = (S147, true) := runSeg_comp 16 12410 85 0 S0 S146 S147 run146 seg146
+theorem run148 : runSeg 16 12580 0 S0 = (S148, true) := runSeg_comp 16 12495 85 0 S0 S147 S148 run147 seg147
+theorem run149 : runSeg 16 12665 0 S0 = (S149, true) := runSeg_comp 16 12580 85 0 S0 S148 S149 run148 seg148
+theorem run150 : runSeg 16 12750 0 S0 = (S150, true) := runSeg_comp 16 12665 85 0 S0 S149 S150 run149 seg149
+theorem run151 : runSeg 16 12835 0 S0 = (S151, true) := runSeg_comp 16 12750 85 0 S0 S150 S151 run150 seg150
+theorem run152 : runSeg 16 12920 0 S0 = (S152, true) := runSeg_comp 16 12835 85 0 S0 S151 S152 run151 seg151
+theorem run153 : runSeg 16 13005 0 S0 = (S153, true) := runSeg_comp 16 12920 85 0 S0 S152 S153 run152 seg152
+theorem run154 : runSeg 16 13090 0 S0 = (S154, true) := runSeg_comp 16 13005 85 0 S0 S153 S154 run153 seg153
+theorem run155 : runSeg 16 13175 0 S0 = (S155, true) := runSeg_comp 16 13090 85 0 S0 S154 S155 run154 seg154
+theorem run156 : runSeg 16 13260 0 S0 = (S156, true) := runSeg_comp 16 13175 85 0 S0 S155 S156 run155 seg155
+theorem run157 : runSeg 16 13345 0 S0 = (S157, true) := runSeg_comp 16 13260 85 0 S0 S156 S157 run156 seg156
+theorem run158 : runSeg 16 13430 0 S0 = (S158, true) := runSeg_comp 16 13345 85 0 S0 S157 S158 run157 seg157
+theorem run159 : runSeg 16 13515 0 S0 = (S159, true) := runSeg_comp 16 13430 85 0 S0 S158 S159 run158 seg158
+theorem run160 : runSeg 16 13600 0 S0 = (S160, true) := runSeg_comp 16 13515 85 0 S0 S159 S160 run159 seg159
+theorem run161 : runSeg 16 13685 0 S0 = (S161, true) := runSeg_comp 16 13600 85 0 S0 S160 S161 run160 seg160
+theorem run162 : runSeg 16 13770 0 S0 = (S162, true) := runSeg_comp 16 13685 85 0 S0 S161 S162 run161 seg161
+theorem run163 : runSeg 16 13855 0 S0 = (S163, true) := runSeg_comp 16 13770 85 0 S0 S162 S163 run162 seg162
+theorem run164 : runSeg 16 13940 0 S0 = (S164, true) := runSeg_comp 16 13855 85 0 S0 S163 S164 run163 seg163
+theorem run165 : runSeg 16 14025 0 S0 = (S165, true) := runSeg_comp 16 13940 85 0 S0 S164 S165 run164 seg164
+theorem run166 : runSeg 16 14110 0 S0 = (S166, true) := runSeg_comp 16 14025 85 0 S0 S165 S166 run165 seg165
+theorem run167 : runSeg 16 14195 0 S0 = (S167, true) := runSeg_comp 16 14110 85 0 S0 S166 S167 run166 seg166
+theorem run168 : runSeg 16 14280 0 S0 = (S168, true) := runSeg_comp 16 14195 85 0 S0 S167 S168 run167 seg167
+theorem run169 : runSeg 16 14365 0 S0 = (S169, true) := runSeg_comp 16 14280 85 0 S0 S168 S169 run168 seg168
+theorem run170 : runSeg 16 14450 0 S0 = (S170, true) := runSeg_comp 16 14365 85 0 S0 S169 S170 run169 seg169
+theorem run171 : runSeg 16 14535 0 S0 = (S171, true) := runSeg_comp 16 14450 85 0 S0 S170 S171 run170 seg170
+theorem run172 : runSeg 16 14620 0 S0 = (S172, true) := runSeg_comp 16 14535 85 0 S0 S171 S172 run171 seg171
+theorem run173 : runSeg 16 14705 0 S0 = (S173, true) := runSeg_comp 16 14620 85 0 S0 S172 S173 run172 seg172
+theorem run174 : runSeg 16 14790 0 S0 = (S174, true) := runSeg_comp 16 14705 85 0 S0 S173 S174 run173 seg173
+theorem run175 : runSeg 16 14875 0 S0 = (S175, true) := runSeg_comp 16 14790 85 0 S0 S174 S175 run174 seg174
+theorem run176 : runSeg 16 14960 0 S0 = (S176, true) := runSeg_comp 16 14875 85 0 S0 S175 S176 run175 seg175
+theorem run177 : runSeg 16 15045 0 S0 = (S177, true) := runSeg_comp 16 14960 85 0 S0 S176 S177 run176 seg176
+theorem run178 : runSeg 16 15130 0 S0 = (S178, true) := runSeg_comp 16 15045 85 0 S0 S177 S178 run177 seg177
+theorem run179 : runSeg 16 15215 0 S0 = (S179, true) := runSeg_comp 16 15130 85 0 S0 S178 S179 run178 seg178
+theorem run180 : runSeg 16 15300 0 S0 = (S180, true) := runSeg_comp 16 15215 85 0 S0 S179 S180 run179 seg179
+theorem run181 : runSeg 16 15385 0 S0 = (S181, true) := runSeg_comp 16 15300 85 0 S0 S180 S181 run180 seg180
+theorem run182 : runSeg 16 15470 0 S0 = (S182, true) := runSeg_comp 16 15385 85 0 S0 S181 S182 run181 seg181
+theorem run183 : runSeg 16 15555 0 S0 = (S183, true) := runSeg_comp 16 15470 85 0 S0 S182 S183 run182 seg182
+theorem run184 : runSeg 16 15640 0 S0 = (S184, true) := runSeg_comp 16 15555 85 0 S0 S183 S184 run183 seg183
+theorem run185 : runSeg 16 15725 0 S0 = (S185, true) := runSeg_comp 16 15640 85 0 S0 S184 S185 run184 seg184
+theorem run186 : runSeg 16 15810 0 S0 = (S186, true) := runSeg_comp 16 15725 85 0 S0 S185 S186 run185 seg185
+theorem run187 : runSeg 16 15895 0 S0 = (S187, true) := runSeg_comp 16 15810 85 0 S0 S186 S187 run186 seg186
+theorem run188 : runSeg 16 15980 0 S0 = (S188, true) := runSeg_comp 16 15895 85 0 S0 S187 S188 run187 seg187
+theorem run189 : runSeg 16 16065 0 S0 = (S189, true) := runSeg_comp 16 15980 85 0 S0 S188 S189 run188 seg188
+theorem run190 : runSeg 16 16150 0 S0 = (S190, true) := runSeg_comp 16 16065 85 0 S0 S189 S190 run189 seg189
+theorem run191 : runSeg 16 16235 0 S0 = (S191, true) := runSeg_comp 16 16150 85 0 S0 S190 S191 run190 seg190
+theorem run192 : runSeg 16 16320 0 S0 = (S192, true) := runSeg_comp 16 16235 85 0 S0 S191 S192 run191 seg191
+theorem run193 : runSeg 16 16405 0 S0 = (S193, true) := runSeg_comp 16 16320 85 0 S0 S192 S193 run192 seg192
+theorem run194 : runSeg 16 16490 0 S0 = (S194, true) := runSeg_comp 16 16405 85 0 S0 S193 S194 run193 seg193
+theorem run195 : runSeg 16 16575 0 S0 = (S195, true) := runSeg_comp 16 16490 85 0 S0 S194 S195 run194 seg194
+theorem run196 : runSeg 16 16660 0 S0 = (S196, true) := runSeg_comp 16 16575 85 0 S0 S195 S196 run195 seg195
+theorem run197 : runSeg 16 16745 0 S0 = (S197, true) := runSeg_comp 16 16660 85 0 S0 S196 S197 run196 seg196
+theorem run198 : runSeg 16 16830 0 S0 = (S198, true) := runSeg_comp 16 16745 85 0 S0 S197 S198 run197 seg197
+theorem run199 : runSeg 16 16915 0 S0 = (S199, true) := runSeg_comp 16 16830 85 0 S0 S198 S199 run198 seg198
+theorem run200 : runSeg 16 17000 0 S0 = (S200, true) := runSeg_comp 16 16915 85 0 S0 S199 S200 run199 seg199
+theorem run201 : runSeg 16 17085 0 S0 = (S201, true) := runSeg_comp 16 17000 85 0 S0 S200 S201 run200 seg200
+theorem run202 : runSeg 16 17170 0 S0 = (S202, true) := runSeg_comp 16 17085 85 0 S0 S201 S202 run201 seg201
+theorem run203 : runSeg 16 17255 0 S0 = (S203, true) := runSeg_comp 16 17170 85 0 S0 S202 S203 run202 seg202
+theorem run204 : runSeg 16 17340 0 S0 = (S204, true) := runSeg_comp 16 17255 85 0 S0 S203 S204 run203 seg203
+theorem run205 : runSeg 16 17425 0 S0 = (S205, true) := runSeg_comp 16 17340 85 0 S0 S204 S205 run204 seg204
+theorem run206 : runSeg 16 17510 0 S0 = (S206, true) := runSeg_comp 16 17425 85 0 S0 S205 S206 run205 seg205
+theorem run207 : runSeg 16 17595 0 S0 = (S207, true) := runSeg_comp 16 17510 85 0 S0 S206 S207 run206 seg206
+theorem run208 : runSeg 16 17680 0 S0 = (S208, true) := runSeg_comp 16 17595 85 0 S0 S207 S208 run207 seg207
+theorem run209 : runSeg 16 17765 0 S0 = (S209, true) := runSeg_comp 16 17680 85 0 S0 S208 S209 run208 seg208
+theorem run210 : runSeg 16 17850 0 S0 = (S210, true) := runSeg_comp 16 17765 85 0 S0 S209 S210 run209 seg209
+theorem run211 : runSeg 16 17935 0 S0 = (S211, true) := runSeg_comp 16 17850 85 0 S0 S210 S211 run210 seg210
+theorem run212 : runSeg 16 18020 0 S0 = (S212, true) := runSeg_comp 16 17935 85 0 S0 S211 S212 run211 seg211
+theorem run213 : runSeg 16 18105 0 S0 = (S213, true) := runSeg_comp 16 18020 85 0 S0 S212 S213 run212 seg212
+theorem run214 : runSeg 16 18190 0 S0 = (S214, true) := runSeg_comp 16 18105 85 0 S0 S213 S214 run213 seg213
+theorem run215 : runSeg 16 18275 0 S0 = (S215, true) := runSeg_comp 16 18190 85 0 S0 S214 S215 run214 seg214
+theorem run216 : runSeg 16 18360 0 S0 = (S216, true) := runSeg_comp 16 18275 85 0 S0 S215 S216 run215 seg215
+theorem run217 : runSeg 16 18445 0 S0 = (S217, true) := runSeg_comp 16 18360 85 0 S0 S216 S217 run216 seg216
+theorem run218 : runSeg 16 18530 0 S0 = (S218, true) := runSeg_comp 16 18445 85 0 S0 S217 S218 run217 seg217
+theorem run219 : runSeg 16 18615 0 S0 = (S219, true) := runSeg_comp 16 18530 85 0 S0 S218 S219 run218 seg218
+theorem run220 : runSeg 16 18700 0 S0 = (S220, true) := runSeg_comp 16 18615 85 0 S0 S219 S220 run219 seg219
+theorem run221 : runSeg 16 18785 0 S0 = (S221, true) := runSeg_comp 16 18700 85 0 S0 S220 S221 run220 seg220
+theorem run222 : runSeg 16 18870 0 S0 = (S222, true) := runSeg_comp 16 18785 85 0 S0 S221 S222 run221 seg221
+theorem run223 : runSeg 16 18955 0 S0 = (S223, true) := runSeg_comp 16 18870 85 0 S0 S222 S223 run222 seg222
+theorem run224 : runSeg 16 19040 0 S0 = (S224, true) := runSeg_comp 16 18955 85 0 S0 S223 S224 run223 seg223
+theorem run225 : runSeg 16 19125 0 S0 = (S225, true) := runSeg_comp 16 19040 85 0 S0 S224 S225 run224 seg224
+theorem run226 : runSeg 16 19210 0 S0 = (S226, true) := runSeg_comp 16 19125 85 0 S0 S225 S226 run225 seg225
+theorem run227 : runSeg 16 19295 0 S0 = (S227, true) := runSeg_comp 16 19210 85 0 S0 S226 S227 run226 seg226
+theorem run228 : runSeg 16 19380 0 S0 = (S228, true) := runSeg_comp 16 19295 85 0 S0 S227 S228 run227 seg227
+theorem run229 : runSeg 16 19465 0 S0 = (S229, true) := runSeg_comp 16 19380 85 0 S0 S228 S229 run228 seg228
+theorem run230 : runSeg 16 19550 0 S0 = (S230, true) := runSeg_comp 16 19465 85 0 S0 S229 S230 run229 seg229
+theorem run231 : runSeg 16 19635 0 S0 = (S231, true) := runSeg_comp 16 19550 85 0 S0 S230 S231 run230 seg230
+theorem run232 : runSeg 16 19720 0 S0 = (S232, true) := runSeg_comp 16 19635 85 0 S0 S231 S232 run231 seg231
+theorem run233 : runSeg 16 19805 0 S0 = (S233, true) := runSeg_comp 16 19720 85 0 S0 S232 S233 run232 seg232
+theorem run234 : runSeg 16 19890 0 S0 = (S234, true) := runSeg_comp 16 19805 85 0 S0 S233 S234 run233 seg233
+theorem run235 : runSeg 16 19975 0 S0 = (S235, true) := runSeg_comp 16 19890 85 0 S0 S234 S235 run234 seg234
+theorem run236 : runSeg 16 20060 0 S0 = (S236, true) := runSeg_comp 16 19975 85 0 S0 S235 S236 run235 seg235
+theorem run237 : runSeg 16 20145 0 S0 = (S237, true) := runSeg_comp 16 20060 85 0 S0 S236 S237 run236 seg236
+theorem run238 : runSeg 16 20230 0 S0 = (S238, true) := runSeg_comp 16 20145 85 0 S0 S237 S238 run237 seg237
+theorem run239 : runSeg 16 20315 0 S0 = (S239, true) := runSeg_comp 16 20230 85 0 S0 S238 S239 run238 seg238
+theorem run240 : runSeg 16 20400 0 S0 = (S240, true) := runSeg_comp 16 20315 85 0 S0 S239 S240 run239 seg239
+theorem run241 : runSeg 16 20485 0 S0 = (S241, true) := runSeg_comp 16 20400 85 0 S0 S240 S241 run240 seg240
+theorem run242 : runSeg 16 20570 0 S0 = (S242, true) := runSeg_comp 16 20485 85 0 S0 S241 S242 run241 seg241
+theorem run243 : runSeg 16 20655 0 S0 = (S243, true) := runSeg_comp 16 20570 85 0 S0 S242 S243 run242 seg242
+theorem run244 : runSeg 16 20740 0 S0 = (S244, true) := runSeg_comp 16 20655 85 0 S0 S243 S244 run243 seg243
+theorem run245 : runSeg 16 20825 0 S0 = (S245, true) := runSeg_comp 16 20740 85 0 S0 S244 S245 run244 seg244
+theorem run246 : runSeg 16 20910 0 S0 = (S246, true) := runSeg_comp 16 20825 85 0 S0 S245 S246 run245 seg245
+theorem run247 : runSeg 16 20995 0 S0 = (S247, true) := runSeg_comp 16 20910 85 0 S0 S246 S247 run246 seg246
+theorem run248 : runSeg 16 21080 0 S0 = (S248, true) := runSeg_comp 16 20995 85 0 S0 S247 S248 run247 seg247
+theorem run249 : runSeg 16 21165 0 S0 = (S249, true) := runSeg_comp 16 21080 85 0 S0 S248 S249 run248 seg248
+theorem run250 : runSeg 16 21250 0 S0 = (S250, true) := runSeg_comp 16 21165 85 0 S0 S249 S250 run249 seg249
+theorem run251 : runSeg 16 21335 0 S0 = (S251, true) := runSeg_comp 16 21250 85 0 S0 S250 S251 run250 seg250
+theorem run252 : runSeg 16 21420 0 S0 = (S252, true) := runSeg_comp 16 21335 85 0 S0 S251 S252 run251 seg251
+theorem run253 : runSeg 16 21505 0 S0 = (S253, true) := runSeg_comp 16 21420 85 0 S0 S252 S253 run252 seg252
+theorem run254 : runSeg 16 21590 0 S0 = (S254, true) := runSeg_comp 16 21505 85 0 S0 S253 S254 run253 seg253
+theorem run255 : runSeg 16 21675 0 S0 = (S255, true) := runSeg_comp 16 21590 85 0 S0 S254 S255 run254 seg254
+theorem run256 : runSeg 16 21760 0 S0 = (S256, true) := runSeg_comp 16 21675 85 0 S0 S255 S256 run255 seg255
+theorem run257 : runSeg 16 21845 0 S0 = (S257, true) := runSeg_comp 16 21760 85 0 S0 S256 S257 run256 seg256
+theorem run258 : runSeg 16 21930 0 S0 = (S258, true) := runSeg_comp 16 21845 85 0 S0 S257 S258 run257 seg257
+theorem run259 : runSeg 16 22015 0 S0 = (S259, true) := runSeg_comp 16 21930 85 0 S0 S258 S259 run258 seg258
+theorem run260 : runSeg 16 22100 0 S0 = (S260, true) := runSeg_comp 16 22015 85 0 S0 S259 S260 run259 seg259
+theorem run261 : runSeg 16 22185 0 S0 = (S261, true) := runSeg_comp 16 22100 85 0 S0 S260 S261 run260 seg260
+theorem run262 : runSeg 16 22270 0 S0 = (S262, true) := runSeg_comp 16 22185 85 0 S0 S261 S262 run261 seg261
+theorem run263 : runSeg 16 22355 0 S0 = (S263, true) := runSeg_comp 16 22270 85 0 S0 S262 S263 run262 seg262
+theorem run264 : runSeg 16 22440 0 S0 = (S264, true) := runSeg_comp 16 22355 85 0 S0 S263 S264 run263 seg263
+theorem run265 : runSeg 16 22525 0 S0 = (S265, true) := runSeg_comp 16 22440 85 0 S0 S264 S265 run264 seg264
+theorem run266 : runSeg 16 22610 0 S0 = (S266, true) := runSeg_comp 16 22525 85 0 S0 S265 S266 run265 seg265
+theorem run267 : runSeg 16 22695 0 S0 = (S267, true) := runSeg_comp 16 22610 85 0 S0 S266 S267 run266 seg266
+theorem run268 : runSeg 16 22780 0 S0 = (S268, true) := runSeg_comp 16 22695 85 0 S0 S267 S268 run267 seg267
+theorem run269 : runSeg 16 22865 0 S0 = (S269, true) := runSeg_comp 16 22780 85 0 S0 S268 S269 run268 seg268
+theorem run270 : runSeg 16 22950 0 S0 = (S270, true) := runSeg_comp 16 22865 85 0 S0 S269 S270 run269 seg269
+theorem run271 : runSeg 16 23035 0 S0 = (S271, true) := runSeg_comp 16 22950 85 0 S0 S270 S271 run270 seg270
+theorem run272 : runSeg 16 23120 0 S0 = (S272, true) := runSeg_comp 16 23035 85 0 S0 S271 S272 run271 seg271
+theorem run273 : runSeg 16 23205 0 S0 = (S273, true) := runSeg_comp 16 23120 85 0 S0 S272 S273 run272 seg272
+theorem run274 : runSeg 16 23290 0 S0 = (S274, true) := runSeg_comp 16 23205 85 0 S0 S273 S274 run273 seg273
+theorem run275 : runSeg 16 23375 0 S0 = (S275, true) := runSeg_comp 16 23290 85 0 S0 S274 S275 run274 seg274
+theorem run276 : runSeg 16 23460 0 S0 = (S276, true) := runSeg_comp 16 23375 85 0 S0 S275 S276 run275 seg275
+theorem run277 : runSeg 16 23545 0 S0 = (S277, true) := runSeg_comp 16 23460 85 0 S0 S276 S277 run276 seg276
+theorem run278 : runSeg 16 23630 0 S0 = (S278, true) := runSeg_comp 16 23545 85 0 S0 S277 S278 run277 seg277
+theorem run279 : runSeg 16 23715 0 S0 = (S279, true) := runSeg_comp 16 23630 85 0 S0 S278 S279 run278 seg278
+theorem run280 : runSeg 16 23800 0 S0 = (S280, true) := runSeg_comp 16 23715 85 0 S0 S279 S280 run279 seg279
+theorem run281 : runSeg 16 23885 0 S0 = (S281, true) := runSeg_comp 16 23800 85 0 S0 S280 S281 run280 seg280
+theorem run282 : runSeg 16 23970 0 S0 = (S282, true) := runSeg_comp 16 23885 85 0 S0 S281 S282 run281 seg281
+theorem run283 : runSeg 16 24055 0 S0 = (S283, true) := runSeg_comp 16 23970 85 0 S0 S282 S283 run282 seg282
+theorem run284 : runSeg 16 24140 0 S0 = (S284, true) := runSeg_comp 16 24055 85 0 S0 S283 S284 run283 seg283
+theorem run285 : runSeg 16 24225 0 S0 = (S285, true) := runSeg_comp 16 24140 85 0 S0 S284 S285 run284 seg284
+theorem run286 : runSeg 16 24310 0 S0 = (S286, true) := runSeg_comp 16 24225 85 0 S0 S285 S286 run285 seg285
+theorem run287 : runSeg 16 24395 0 S0 = (S287, true) := runSeg_comp 16 24310 85 0 S0 S286 S287 run286 seg286
+theorem run288 : runSeg 16 24480 0 S0 = (S288, true) := runSeg_comp 16 24395 85 0 S0 S287 S288 run287 seg287
+theorem run289 : runSeg 16 24565 0 S0 = (S289, true) := runSeg_comp 16 24480 85 0 S0 S288 S289 run288 seg288
+theorem run290 : runSeg 16 24650 0 S0 = (S290, true) := runSeg_comp 16 24565 85 0 S0 S289 S290 run289 seg289
+theorem run291 : runSeg 16 24735 0 S0 = (S291, true) := runSeg_comp 16 24650 85 0 S0 S290 S291 run290 seg290
+theorem run292 : runSeg 16 24820 0 S0 = (S292, true) := runSeg_comp 16 24735 85 0 S0 S291 S292 run291 seg291
+theorem run293 : runSeg 16 24905 0 S0 = (S293, true) := runSeg_comp 16 24820 85 0 S0 S292 S293 run292 seg292
+theorem run294 : runSeg 16 24990 0 S0 = (S294, true) := runSeg_comp 16 24905 85 0 S0 S293 S294 run293 seg293
+theorem run295 : runSeg 16 25075 0 S0 = (S295, true) := runSeg_comp 16 24990 85 0 S0 S294 S295 run294 seg294
+theorem run296 : runSeg 16 25160 0 S0 = (S296, true) := runSeg_comp 16 25075 85 0 S0 S295 S296 run295 seg295
+theorem run297 : runSeg 16 25245 0 S0 = (S297, true) := runSeg_comp 16 25160 85 0 S0 S296 S297 run296 seg296
+theorem run298 : runSeg 16 25330 0 S0 = (S298, true) := runSeg_comp 16 25245 85 0 S0 S297 S298 run297 seg297
+theorem run299 : runSeg 16 25415 0 S0 = (S299, true) := runSeg_comp 16 25330 85 0 S0 S298 S299 run298 seg298
+theorem run300 : runSeg 16 25500 0 S0 = (S300, true) := runSeg_comp 16 25415 85 0 S0 S299 S300 run299 seg299
+theorem run301 : runSeg 16 25585 0 S0 = (S301, true) := runSeg_comp 16 25500 85 0 S0 S300 S301 run300 seg300
+theorem run302 : runSeg 16 25670 0 S0 = (S302, true) := runSeg_comp 16 25585 85 0 S0 S301 S302 run301 seg301
+theorem run303 : runSeg 16 25755 0 S0 = (S303, true) := runSeg_comp 16 25670 85 0 S0 S302 S303 run302 seg302
+theorem run304 : runSeg 16 25840 0 S0 = (S304, true) := runSeg_comp 16 25755 85 0 S0 S303 S304 run303 seg303
+theorem run305 : runSeg 16 25925 0 S0 = (S305, true) := runSeg_comp 16 25840 85 0 S0 S304 S305 run304 seg304
+theorem run306 : runSeg 16 26010 0 S0 = (S306, true) := runSeg_comp 16 25925 85 0 S0 S305 S306 run305 seg305
+theorem run307 : runSeg 16 26095 0 S0 = (S307, true) := runSeg_comp 16 26010 85 0 S0 S306 S307 run306 seg306
+theorem run308 : runSeg 16 26180 0 S0 = (S308, true) := runSeg_comp 16 26095 85 0 S0 S307 S308 run307 seg307
+theorem run309 : runSeg 16 26265 0 S0 = (S309, true) := runSeg_comp 16 26180 85 0 S0 S308 S309 run308 seg308
+theorem run310 : runSeg 16 26350 0 S0 = (S310, true) := runSeg_comp 16 26265 85 0 S0 S309 S310 run309 seg309
+theorem run311 : runSeg 16 26435 0 S0 = (S311, true) := runSeg_comp 16 26350 85 0 S0 S310 S311 run310 seg310
+theorem run312 : runSeg 16 26520 0 S0 = (S312, true) := runSeg_comp 16 26435 85 0 S0 S311 S312 run311 seg311
+theorem run313 : runSeg 16 26605 0 S0 = (S313, true) := runSeg_comp 16 26520 85 0 S0 S312 S313 run312 seg312
+theorem run314 : runSeg 16 26690 0 S0 = (S314, true) := runSeg_comp 16 26605 85 0 S0 S313 S314 run313 seg313
+theorem run315 : runSeg 16 26775 0 S0 = (S315, true) := runSeg_comp 16 26690 85 0 S0 S314 S315 run314 seg314
+theorem run316 : runSeg 16 26860 0 S0 = (S316, true) := runSeg_comp 16 26775 85 0 S0 S315 S316 run315 seg315
+theorem run317 : runSeg 16 26945 0 S0 = (S317, true) := runSeg_comp 16 26860 85 0 S0 S316 S317 run316 seg316
+theorem run318 : runSeg 16 27030 0 S0 = (S318, true) := runSeg_comp 16 26945 85 0 S0 S317 S318 run317 seg317
+theorem run319 : runSeg 16 27115 0 S0 = (S319, true) := runSeg_comp 16 27030 85 0 S0 S318 S319 run318 seg318
+theorem run320 : runSeg 16 27200 0 S0 = (S320, true) := runSeg_comp 16 27115 85 0 S0 S319 S320 run319 seg319
+theorem run321 : runSeg 16 27285 0 S0 = (S321, true) := runSeg_comp 16 27200 85 0 S0 S320 S321 run320 seg320
+theorem run322 : runSeg 16 27370 0 S0 = (S322, true) := runSeg_comp 16 27285 85 0 S0 S321 S322 run321 seg321
+theorem run323 : runSeg 16 27455 0 S0 = (S323, true) := runSeg_comp 16 27370 85 0 S0 S322 S323 run322 seg322
+theorem run324 : runSeg 16 27540 0 S0 = (S324, true) := runSeg_comp 16 27455 85 0 S0 S323 S324 run323 seg323
+theorem run325 : runSeg 16 27625 0 S0 = (S325, true) := runSeg_comp 16 27540 85 0 S0 S324 S325 run324 seg324
+theorem run326 : runSeg 16 27710 0 S0 = (S326, true) := runSeg_comp 16 27625 85 0 S0 S325 S326 run325 seg325
+theorem run327 : runSeg 16 27795 0 S0 = (S327, true) := runSeg_comp 16 27710 85 0 S0 S326 S327 run326 seg326
+theorem run328 : runSeg 16 27880 0 S0 = (S328, true) := runSeg_comp 16 27795 85 0 S0 S327 S328 run327 seg327
+theorem run329 : runSeg 16 27965 0 S0 = (S329, true) := runSeg_comp 16 27880 85 0 S0 S328 S329 run328 seg328
+theorem run330 : runSeg 16 28050 0 S0 = (S330, true) := runSeg_comp 16 27965 85 0 S0 S329 S330 run329 seg329
+theorem run331 : runSeg 16 28135 0 S0 = (S331, true) := runSeg_comp 16 28050 85 0 S0 S330 S331 run330 seg330
+theorem run332 : runSeg 16 28220 0 S0 = (S332, true) := runSeg_comp 16 28135 85 0 S0 S331 S332 run331 seg331
+theorem run333 : runSeg 16 28305 0 S0 = (S333, true) := runSeg_comp 16 28220 85 0 S0 S332 S333 run332 seg332
+theorem run334 : runSeg 16 28390 0 S0 = (S334, true) := runSeg_comp 16 28305 85 0 S0 S333 S334 run333 seg333
+theorem run335 : runSeg 16 28475 0 S0 = (S335, true) := runSeg_comp 16 28390 85 0 S0 S334 S335 run334 seg334
+theorem run336 : runSeg 16 28560 0 S0 = (S336, true) := runSeg_comp 16 28475 85 0 S0 S335 S336 run335 seg335
+theorem run337 : runSeg 16 28645 0 S0 = (S337, true) := runSeg_comp 16 28560 85 0 S0 S336 S337 run336 seg336
+theorem run338 : runSeg 16 28730 0 S0 = (S338, true) := runSeg_comp 16 28645 85 0 S0 S337 S338 run337 seg337
+theorem run339 : runSeg 16 28815 0 S0 = (S339, true) := runSeg_comp 16 28730 85 0 S0 S338 S339 run338 seg338
+theorem run340 : runSeg 16 28900 0 S0 = (S340, true) := runSeg_comp 16 28815 85 0 S0 S339 S340 run339 seg339
+theorem run341 : runSeg 16 28985 0 S0 = (S341, true) := runSeg_comp 16 28900 85 0 S0 S340 S341 run340 seg340
+theorem run342 : runSeg 16 29070 0 S0 = (S342, true) := runSeg_comp 16 28985 85 0 S0 S341 S342 run341 seg341
+theorem run343 : runSeg 16 29155 0 S0 = (S343, true) := runSeg_comp 16 29070 85 0 S0 S342 S343 run342 seg342
+theorem run344 : runSeg 16 29240 0 S0 = (S344, true) := runSeg_comp 16 29155 85 0 S0 S343 S344 run343 seg343
+theorem run345 : runSeg 16 29325 0 S0 = (S345, true) := runSeg_comp 16 29240 85 0 S0 S344 S345 run344 seg344
+theorem run346 : runSeg 16 29410 0 S0 = (S346, true) := runSeg_comp 16 29325 85 0 S0 S345 S346 run345 seg345
+theorem run347 : runSeg 16 29495 0 S0 = (S347, true) := runSeg_comp 16 29410 85 0 S0 S346 S347 run346 seg346
+theorem run348 : runSeg 16 29580 0 S0 = (S348, true) := runSeg_comp 16 29495 85 0 S0 S347 S348 run347 seg347
+theorem run349 : runSeg 16 29665 0 S0 = (S349, true) := runSeg_comp 16 29580 85 0 S0 S348 S349 run348 seg348
+theorem run350 : runSeg 16 29750 0 S0 = (S350, true) := runSeg_comp 16 29665 85 0 S0 S349 S350 run349 seg349
+theorem run351 : runSeg 16 29835 0 S0 = (S351, true) := runSeg_comp 16 29750 85 0 S0 S350 S351 run350 seg350
+theorem run352 : runSeg 16 29920 0 S0 = (S352, true) := runSeg_comp 16 29835 85 0 S0 S351 S352 run351 seg351
+theorem run353 : runSeg 16 30005 0 S0 = (S353, true) := runSeg_comp 16 29920 85 0 S0 S352 S353 run352 seg352
+theorem run354 : runSeg 16 30090 0 S0 = (S354, true) := runSeg_comp 16 30005 85 0 S0 S353 S354 run353 seg353
+theorem run355 : runSeg 16 30175 0 S0 = (S355, true) := runSeg_comp 16 30090 85 0 S0 S354 S355 run354 seg354
+theorem run356 : runSeg 16 30260 0 S0 = (S356, true) := runSeg_comp 16 30175 85 0 S0 S355 S356 run355 seg355
+theorem run357 : runSeg 16 30345 0 S0 = (S357, true) := runSeg_comp 16 30260 85 0 S0 S356 S357 run356 seg356
+theorem run358 : runSeg 16 30430 0 S0 = (S358, true) := runSeg_comp 16 30345 85 0 S0 S357 S358 run357 seg357
+theorem run359 : runSeg 16 30515 0 S0 = (S359, true) := runSeg_comp 16 30430 85 0 S0 S358 S359 run358 seg358
+theorem run360 : runSeg 16 30600 0 S0 = (S360, true) := runSeg_comp 16 30515 85 0 S0 S359 S360 run359 seg359
+theorem run361 : runSeg 16 30685 0 S0 = (S361, true) := runSeg_comp 16 30600 85 0 S0 S360 S361 run360 seg360
+theorem run362 : runSeg 16 30770 0 S0 = (S362, true) := runSeg_comp 16 30685 85 0 S0 S361 S362 run361 seg361
+theorem run363 : runSeg 16 30855 0 S0 = (S363, true) := runSeg_comp 16 30770 85 0 S0 S362 S363 run362 seg362
+theorem run364 : runSeg 16 30940 0 S0 = (S364, true) := runSeg_comp 16 30855 85 0 S0 S363 S364 run363 seg363
+theorem run365 : runSeg 16 31025 0 S0 = (S365, true) := runSeg_comp 16 30940 85 0 S0 S364 S365 run364 seg364
+theorem run366 : runSeg 16 31110 0 S0 = (S366, true) := runSeg_comp 16 31025 85 0 S0 S365 S366 run365 seg365
+theorem run367 : runSeg 16 31195 0 S0 = (S367, true) := runSeg_comp 16 31110 85 0 S0 S366 S367 run366 seg366
+theorem run368 : runSeg 16 31280 0 S0 = (S368, true) := runSeg_comp 16 31195 85 0 S0 S367 S368 run367 seg367
+theorem run369 : runSeg 16 31365 0 S0 = (S369, true) := runSeg_comp 16 31280 85 0 S0 S368 S369 run368 seg368
+theorem run370 : runSeg 16 31450 0 S0 = (S370, true) := runSeg_comp 16 31365 85 0 S0 S369 S370 run369 seg369
+theorem run371 : runSeg 16 31535 0 S0 = (S371, true) := runSeg_comp 16 31450 85 0 S0 S370 S371 run370 seg370
+theorem run372 : runSeg 16 31620 0 S0 = (S372, true) := runSeg_comp 16 31535 85 0 S0 S371 S372 run371 seg371
+theorem run373 : runSeg 16 31705 0 S0 = (S373, true) := runSeg_comp 16 31620 85 0 S0 S372 S373 run372 seg372
+theorem run374 : runSeg 16 31790 0 S0 = (S374, true) := runSeg_comp 16 31705 85 0 S0 S373 S374 run373 seg373
+theorem run375 : runSeg 16 31875 0 S0 = (S375, true) := runSeg_comp 16 31790 85 0 S0 S374 S375 run374 seg374
+theorem run376 : runSeg 16 31960 0 S0 = (S376, true) := runSeg_comp 16 31875 85 0 S0 S375 S376 run375 seg375
+theorem run377 : runSeg 16 32045 0 S0 = (S377, true) := runSeg_comp 16 31960 85 0 S0 S376 S377 run376 seg376
+theorem run378 : runSeg 16 32130 0 S0 = (S378, true) := runSeg_comp 16 32045 85 0 S0 S377 S378 run377 seg377
+theorem run379 : runSeg 16 32215 0 S0 = (S379, true) := runSeg_comp 16 32130 85 0 S0 S378 S379 run378 seg378
+theorem run380 : runSeg 16 32300 0 S0 = (S380, true) := runSeg_comp 16 32215 85 0 S0 S379 S380 run379 seg379
+theorem run381 : runSeg 16 32385 0 S0 = (S381, true) := runSeg_comp 16 32300 85 0 S0 S380 S381 run380 seg380
+theorem run382 : runSeg 16 32470 0 S0 = (S382, true) := runSeg_comp 16 32385 85 0 S0 S381 S382 run381 seg381
+theorem run383 : runSeg 16 32555 0 S0 = (S383, true) := runSeg_comp 16 32470 85 0 S0 S382 S383 run382 seg382
+theorem run384 : runSeg 16 32640 0 S0 = (S384, true) := runSeg_comp 16 32555 85 0 S0 S383 S384 run383 seg383
+theorem run385 : runSeg 16 32725 0 S0 = (S385, true) := runSeg_comp 16 32640 85 0 S0 S384 S385 run384 seg384
+theorem run386 : runSeg 16 32810 0 S0 = (S386, true) := runSeg_comp 16 32725 85 0 S0 S385 S386 run385 seg385
+theorem run387 : runSeg 16 32895 0 S0 = (S387, true) := runSeg_comp 16 32810 85 0 S0 S386 S387 run386 seg386
+theorem run388 : runSeg 16 32980 0 S0 = (S388, true) := runSeg_comp 16 32895 85 0 S0 S387 S388 run387 seg387
+theorem run389 : runSeg 16 33065 0 S0 = (S389, true) := runSeg_comp 16 32980 85 0 S0 S388 S389 run388 seg388
+theorem run390 : runSeg 16 33150 0 S0 = (S390, true) := runSeg_comp 16 33065 85 0 S0 S389 S390 run389 seg389
+theorem run391 : runSeg 16 33235 0 S0 = (S391, true) := runSeg_comp 16 33150 85 0 S0 S390 S391 run390 seg390
+theorem run392 : runSeg 16 33320 0 S0 = (S392, true) := runSeg_comp 16 33235 85 0 S0 S391 S392 run391 seg391
+theorem run393 : runSeg 16 33405 0 S0 = (S393, true) := runSeg_comp 16 33320 85 0 S0 S392 S393 run392 seg392
+theorem run394 : runSeg 16 33490 0 S0 = (S394, true) := runSeg_comp 16 33405 85 0 S0 S393 S394 run393 seg393
+theorem run395 : runSeg 16 33575 0 S0 = (S395, true) := runSeg_comp 16 33490 85 0 S0 S394 S395 run394 seg394
+theorem run396 : runSeg 16 33660 0 S0 = (S396, true) := runSeg_comp 16 33575 85 0 S0 S395 S396 run395 seg395
+theorem run397 : runSeg 16 33745 0 S0 = (S397, true) := runSeg_comp 16 33660 85 0 S0 S396 S397 run396 seg396
+theorem run398 : runSeg 16 33830 0 S0 = (S398, true) := runSeg_comp 16 33745 85 0 S0 S397 S398 run397 seg397
+theorem run399 : runSeg 16 33915 0 S0 = (S399, true) := runSeg_comp 16 33830 85 0 S0 S398 S399 run398 seg398
+theorem run400 : runSeg 16 34000 0 S0 = (S400, true) := runSeg_comp 16 33915 85 0 S0 S399 S400 run399 seg399
+theorem run401 : runSeg 16 34085 0 S0 = (S401, true) := runSeg_comp 16 34000 85 0 S0 S400 S401 run400 seg400
+theorem run402 : runSeg 16 34170 0 S0 = (S402, true) := runSeg_comp 16 34085 85 0 S0 S401 S402 run401 seg401
+theorem run403 : runSeg 16 34255 0 S0 = (S403, true) := runSeg_comp 16 34170 85 0 S0 S402 S403 run402 seg402
+theorem run404 : runSeg 16 34340 0 S0 = (S404, true) := runSeg_comp 16 34255 85 0 S0 S403 S404 run403 seg403
+theorem run405 : runSeg 16 34425 0 S0 = (S405, true) := runSeg_comp 16 34340 85 0 S0 S404 S405 run404 seg404
+theorem run406 : runSeg 16 34510 0 S0 = (S406, true) := runSeg_comp 16 34425 85 0 S0 S405 S406 run405 seg405
+theorem run407 : runSeg 16 34595 0 S0 = (S407, true) := runSeg_comp 16 34510 85 0 S0 S406 S407 run406 seg406
+theorem run408 : runSeg 16 34680 0 S0 = (S408, true) := runSeg_comp 16 34595 85 0 S0 S407 S408 run407 seg407
+theorem run409 : runSeg 16 34765 0 S0 = (S409, true) := runSeg_comp 16 34680 85 0 S0 S408 S409 run408 seg408
+theorem run410 : runSeg 16 34850 0 S0 = (S410, true) := runSeg_comp 16 34765 85 0 S0 S409 S410 run409 seg409
+theorem run411 : runSeg 16 34935 0 S0 = (S411, true) := runSeg_comp 16 34850 85 0 S0 S410 S411 run410 seg410
+theorem run412 : runSeg 16 35020 0 S0 = (S412, true) := runSeg_comp 16 34935 85 0 S0 S411 S412 run411 seg411
+theorem run413 : runSeg 16 35105 0 S0 = (S413, true) := runSeg_comp 16 35020 85 0 S0 S412 S413 run412 seg412
+theorem run414 : runSeg 16 35190 0 S0 = (S414, true) := runSeg_comp 16 35105 85 0 S0 S413 S414 run413 seg413
+theorem run415 : runSeg 16 35275 0 S0 = (S415, true) := runSeg_comp 16 35190 85 0 S0 S414 S415 run414 seg414
+theorem run416 : runSeg 16 35360 0 S0 = (S416, true) := runSeg_comp 16 35275 85 0 S0 S415 S416 run415 seg415
+theorem run417 : runSeg 16 35445 0 S0 = (S417, true) := runSeg_comp 16 35360 85 0 S0 S416 S417 run416 seg416
+theorem run418 : runSeg 16 35530 0 S0 = (S418, true) := runSeg_comp 16 35445 85 0 S0 S417 S418 run417 seg417
+theorem run419 : runSeg 16 35615 0 S0 = (S419, true) := runSeg_comp 16 35530 85 0 S0 S418 S419 run418 seg418
+theorem run420 : runSeg 16 35700 0 S0 = (S420, true) := runSeg_comp 16 35615 85 0 S0 S419 S420 run419 seg419
+theorem run421 : runSeg 16 35785 0 S0 = (S421, true) := runSeg_comp 16 35700 85 0 S0 S420 S421 run420 seg420
+theorem run422 : runSeg 16 35870 0 S0 = (S422, true) := runSeg_comp 16 35785 85 0 S0 S421 S422 run421 seg421
+theorem run423 : runSeg 16 35955 0 S0 = (S423, true) := runSeg_comp 16 35870 85 0 S0 S422 S423 run422 seg422
+theorem run424 : runSeg 16 36040 0 S0 = (S424, true) := runSeg_comp 16 35955 85 0 S0 S423 S424 run423 seg423
+theorem run425 : runSeg 16 36125 0 S0 = (S425, true) := runSeg_comp 16 36040 85 0 S0 S424 S425 run424 seg424
+theorem run426 : runSeg 16 36210 0 S0 = (S426, true) := runSeg_comp 16 36125 85 0 S0 S425 S426 run425 seg425
+theorem run427 : runSeg 16 36295 0 S0 = (S427, true) := runSeg_comp 16 36210 85 0 S0 S426 S427 run426 seg426
+theorem run428 : runSeg 16 36380 0 S0 = (S428, true) := runSeg_comp 16 36295 85 0 S0 S427 S428 run427 seg427
+theorem run429 : runSeg 16 36465 0 S0 = (S429, true) := runSeg_comp 16 36380 85 0 S0 S428 S429 run428 seg428
+theorem run430 : runSeg 16 36550 0 S0 = (S430, true) := runSeg_comp 16 36465 85 0 S0 S429 S430 run429 seg429
+theorem run431 : runSeg 16 36635 0 S0 = (S431, true) := runSeg_comp 16 36550 85 0 S0 S430 S431 run430 seg430
+theorem run432 : runSeg 16 36720 0 S0 = (S432, true) := runSeg_comp 16 36635 85 0 S0 S431 S432 run431 seg431
+theorem run433 : runSeg 16 36805 0 S0 = (S433, true) := runSeg_comp 16 36720 85 0 S0 S432 S433 run432 seg432
+theorem run434 : runSeg 16 36890 0 S0 = (S434, true) := runSeg_comp 16 36805 85 0 S0 S433 S434 run433 seg433
+theorem run435 : runSeg 16 36975 0 S0 = (S435, true) := runSeg_comp 16 36890 85 0 S0 S434 S435 run434 seg434
+theorem run436 : runSeg 16 37060 0 S0 = (S436, true) := runSeg_comp 16 36975 85 0 S0 S435 S436 run435 seg435
+theorem run437 : runSeg 16 37145 0 S0 = (S437, true) := runSeg_comp 16 37060 85 0 S0 S436 S437 run436 seg436
+theorem run438 : runSeg 16 37230 0 S0 = (S438, true) := runSeg_comp 16 37145 85 0 S0 S437 S438 run437 seg437
+theorem run439 : runSeg 16 37315 0 S0 = (S439, true) := runSeg_comp 16 37230 85 0 S0 S438 S439 run438 seg438
+theorem run440 : runSeg 16 37400 0 S0 = (S440, true) := runSeg_comp 16 37315 85 0 S0 S439 S440 run439 seg439
+theorem run441 : runSeg 16 37485 0 S0 = (S441, true) := runSeg_comp 16 37400 85 0 S0 S440 S441 run440 seg440
+theorem run442 : runSeg 16 37570 0 S0 = (S442, true) := runSeg_comp 16 37485 85 0 S0 S441 S442 run441 seg441
+theorem run443 : runSeg 16 37655 0 S0 = (S443, true) := runSeg_comp 16 37570 85 0 S0 S442 S443 run442 seg442
+theorem run444 : runSeg 16 37740 0 S0 = (S444, true) := runSeg_comp 16 37655 85 0 S0 S443 S444 run443 seg443
+theorem run445 : runSeg 16 37825 0 S0 = (S445, true) := runSeg_comp 16 37740 85 0 S0 S444 S445 run444 seg444
+theorem run446 : runSeg 16 37910 0 S0 = (S446, true) := runSeg_comp 16 37825 85 0 S0 S445 S446 run445 seg445
+theorem run447 : runSeg 16 37995 0 S0 = (S447, true) := runSeg_comp 16 37910 85 0 S0 S446 S447 run446 seg446
+theorem run448 : runSeg 16 38080 0 S0 = (S448, true) := runSeg_comp 16 37995 85 0 S0 S447 S448 run447 seg447
+theorem run449 : runSeg 16 38165 0 S0 = (S449, true) := runSeg_comp 16 38080 85 0 S0 S448 S449 run448 seg448
+theorem run450 : runSeg 16 38250 0 S0 = (S450, true) := runSeg_comp 16 38165 85 0 S0 S449 S450 run449 seg449
+theorem run451 : runSeg 16 38335 0 S0 = (S451, true) := runSeg_comp 16 38250 85 0 S0 S450 S451 run450 seg450
+theorem run452 : runSeg 16 38420 0 S0 = (S452, true) := runSeg_comp 16 38335 85 0 S0 S451 S452 run451 seg451
+theorem run453 : runSeg 16 38505 0 S0 = (S453, true) := runSeg_comp 16 38420 85 0 S0 S452 S453 run452 seg452
+theorem run454 : runSeg 16 38590 0 S0 = (S454, true) := runSeg_comp 16 38505 85 0 S0 S453 S454 run453 seg453
+theorem run455 : runSeg 16 38675 0 S0 = (S455, true) := runSeg_comp 16 38590 85 0 S0 S454 S455 run454 seg454
+theorem run456 : runSeg 16 38760 0 S0 = (S456, true) := runSeg_comp 16 38675 85 0 S0 S455 S456 run455 seg455
+theorem run457 : runSeg 16 38845 0 S0 = (S457, true) := runSeg_comp 16 38760 85 0 S0 S456 S457 run456 seg456
+theorem run458 : runSeg 16 38930 0 S0 = (S458, true) := runSeg_comp 16 38845 85 0 S0 S457 S458 run457 seg457
+theorem run459 : runSeg 16 39015 0 S0 = (S459, true) := runSeg_comp 16 38930 85 0 S0 S458 S459 run458 seg458
+theorem run460 : runSeg 16 39100 0 S0 = (S460, true) := runSeg_comp 16 39015 85 0 S0 S459 S460 run459 seg459
+theorem run461 : runSeg 16 39185 0 S0 = (S461, true) := runSeg_comp 16 39100 85 0 S0 S460 S461 run460 seg460
+theorem run462 : runSeg 16 39270 0 S0 = (S462, true) := runSeg_comp 16 39185 85 0 S0 S461 S462 run461 seg461
+theorem run463 : runSeg 16 39355 0 S0 = (S463, true) := runSeg_comp 16 39270 85 0 S0 S462 S463 run462 seg462
+theorem run464 : runSeg 16 39440 0 S0 = (S464, true) := runSeg_comp 16 39355 85 0 S0 S463 S464 run463 seg463
+theorem run465 : runSeg 16 39525 0 S0 = (S465, true) := runSeg_comp 16 39440 85 0 S0 S464 S465 run464 seg464
+theorem run466 : runSeg 16 39610 0 S0 = (S466, true) := runSeg_comp 16 39525 85 0 S0 S465 S466 run465 seg465
+theorem run467 : runSeg 16 39695 0 S0 = (S467, true) := runSeg_comp 16 39610 85 0 S0 S466 S467 run466 seg466
+theorem run468 : runSeg 16 39780 0 S0 = (S468, true) := runSeg_comp 16 39695 85 0 S0 S467 S468 run467 seg467
+theorem run469 : runSeg 16 39865 0 S0 = (S469, true) := runSeg_comp 16 39780 85 0 S0 S468 S469 run468 seg468
+theorem run470 : runSeg 16 39950 0 S0 = (S470, true) := runSeg_comp 16 39865 85 0 S0 S469 S470 run469 seg469
+theorem run471 : runSeg 16 40035 0 S0 = (S471, true) := runSeg_comp 16 39950 85 0 S0 S470 S471 run470 seg470
+theorem run472 : runSeg 16 40120 0 S0 = (S472, true) := runSeg_comp 16 40035 85 0 S0 S471 S472 run471 seg471
+theorem run473 : runSeg 16 40205 0 S0 = (S473, true) := runSeg_comp 16 40120 85 0 S0 S472 S473 run472 seg472
+theorem run474 : runSeg 16 40290 0 S0 = (S474, true) := runSeg_comp 16 40205 85 0 S0 S473 S474 run473 seg473
+theorem run475 : runSeg 16 40375 0 S0 = (S475, true) := runSeg_comp 16 40290 85 0 S0 S474 S475 run474 seg474
+theorem run476 : runSeg 16 40460 0 S0 = (S476, true) := runSeg_comp 16 40375 85 0 S0 S475 S476 run475 seg475
+theorem run477 : runSeg 16 40545 0 S0 = (S477, true) := runSeg_comp 16 40460 85 0 S0 S476 S477 run476 seg476
+theorem run478 : runSeg 16 40630 0 S0 = (S478, true) := runSeg_comp 16 40545 85 0 S0 S477 S478 run477 seg477
+theorem run479 : runSeg 16 40715 0 S0 = (S479, true) := runSeg_comp 16 40630 85 0 S0 S478 S479 run478 seg478
+theorem run480 : runSeg 16 40800 0 S0 = (S480, true) := runSeg_comp 16 40715 85 0 S0 S479 S480 run479 seg479
+theorem run481 : runSeg 16 40885 0 S0 = (S481, true) := runSeg_comp 16 40800 85 0 S0 S480 S481 run480 seg480
+theorem run482 : runSeg 16 40970 0 S0 = (S482, true) := runSeg_comp 16 40885 85 0 S0 S481 S482 run481 seg481
+theorem run483 : runSeg 16 41055 0 S0 = (S483, true) := runSeg_comp 16 40970 85 0 S0 S482 S483 run482 seg482
+theorem run484 : runSeg 16 41140 0 S0 = (S484, true) := runSeg_comp 16 41055 85 0 S0 S483 S484 run483 seg483
+theorem run485 : runSeg 16 41225 0 S0 = (S485, true) := runSeg_comp 16 41140 85 0 S0 S484 S485 run484 seg484
+theorem run486 : runSeg 16 41310 0 S0 = (S486, true) := runSeg_comp 16 41225 85 0 S0 S485 S486 run485 seg485
+theorem run487 : runSeg 16 41395 0 S0 = (S487, true) := runSeg_comp 16 41310 85 0 S0 S486 S487 run486 seg486
+theorem run488 : runSeg 16 41480 0 S0 = (S488, true) := runSeg_comp 16 41395 85 0 S0 S487 S488 run487 seg487
+theorem run489 : runSeg 16 41565 0 S0 = (S489, true) := runSeg_comp 16 41480 85 0 S0 S488 S489 run488 seg488
+theorem run490 : runSeg 16 41650 0 S0 = (S490, true) := runSeg_comp 16 41565 85 0 S0 S489 S490 run489 seg489
+theorem run491 : runSeg 16 41735 0 S0 = (S491, true) := runSeg_comp 16 41650 85 0 S0 S490 S491 run490 seg490
+theorem run492 : runSeg 16 41820 0 S0 = (S492, true) := runSeg_comp 16 41735 85 0 S0 S491 S492 run491 seg491
+theorem run493 : runSeg 16 41905 0 S0 = (S493, true) := runSeg_comp 16 41820 85 0 S0 S492 S493 run492 seg492
+theorem run494 : runSeg 16 41990 0 S0 = (S494, true) := runSeg_comp 16 41905 85 0 S0 S493 S494 run493 seg493
+theorem run495 : runSeg 16 42075 0 S0 = (S495, true) := runSeg_comp 16 41990 85 0 S0 S494 S495 run494 seg494
+theorem run496 : runSeg 16 42160 0 S0 = (S496, true) := runSeg_comp 16 42075 85 0 S0 S495 S496 run495 seg495
+theorem run497 : runSeg 16 42245 0 S0 = (S497, true) := runSeg_comp 16 42160 85 0 S0 S496 S497 run496 seg496
+theorem run498 : runSeg 16 42330 0 S0 = (S498, true) := runSeg_comp 16 42245 85 0 S0 S497 S498 run497 seg497
+theorem run499 : runSeg 16 42415 0 S0 = (S499, true) := runSeg_comp 16 42330 85 0 S0 S498 S499 run498 seg498
+theorem run500 : runSeg 16 42500 0 S0 = (S500, true) := runSeg_comp 16 42415 85 0 S0 S499 S500 run499 seg499
+theorem run501 : runSeg 16 42585 0 S0 = (S501, true) := runSeg_comp 16 42500 85 0 S0 S500 S501 run500 seg500
+theorem run502 : runSeg 16 42670 0 S0 = (S502, true) := runSeg_comp 16 42585 85 0 S0 S501 S502 run501 seg501
+theorem run503 : runSeg 16 42755 0 S0 = (S503, true) := runSeg_comp 16 42670 85 0 S0 S502 S503 run502 seg502
+theorem run504 : runSeg 16 42840 0 S0 = (S504, true) := runSeg_comp 16 42755 85 0 S0 S503 S504 run503 seg503
+theorem run505 : runSeg 16 42925 0 S0 = (S505, true) := runSeg_comp 16 42840 85 0 S0 S504 S505 run504 seg504
+theorem run506 : runSeg 16 43010 0 S0 = (S506, true) := runSeg_comp 16 42925 85 0 S0 S505 S506 run505 seg505
+theorem run507 : runSeg 16 43095 0 S0 = (S507, true) := runSeg_comp 16 43010 85 0 S0 S506 S507 run506 seg506
+theorem run508 : runSeg 16 43180 0 S0 = (S508, true) := runSeg_comp 16 43095 85 0 S0 S507 S508 run507 seg507
+theorem run509 : runSeg 16 43265 0 S0 = (S509, true) := runSeg_comp 16 43180 85 0 S0 S508 S509 run508 seg508
+theorem run510 : runSeg 16 43350 0 S0 = (S510, true) := runSeg_comp 16 43265 85 0 S0 S509 S510 run509 seg509
+theorem run511 : runSeg 16 43435 0 S0 = (S511, true) := runSeg_comp 16 43350 85 0 S0 S510 S511 run510 seg510
+theorem run512 : runSeg 16 43520 0 S0 = (S512, true) := runSeg_comp 16 43435 85 0 S0 S511 S512 run511 seg511
+theorem run513 : runSeg 16 43605 0 S0 = (S513, true) := runSeg_comp 16 43520 85 0 S0 S512 S513 run512 seg512
+theorem run514 : runSeg 16 43690 0 S0 = (S514, true) := runSeg_comp 16 43605 85 0 S0 S513 S514 run513 seg513
+theorem run515 : runSeg 16 43775 0 S0 = (S515, true) := runSeg_comp 16 43690 85 0 S0 S514 S515 run514 seg514
+theorem run516 : runSeg 16 43860 0 S0 = (S516, true) := runSeg_comp 16 43775 85 0 S0 S515 S516 run515 seg515
+theorem run517 : runSeg 16 43945 0 S0 = (S517, true) := runSeg_comp 16 43860 85 0 S0 S516 S517 run516 seg516
+theorem run518 : runSeg 16 44030 0 S0 = (S518, true) := runSeg_comp 16 43945 85 0 S0 S517 S518 run517 seg517
+theorem run519 : runSeg 16 44115 0 S0 = (S519, true) := runSeg_comp 16 44030 85 0 S0 S518 S519 run518 seg518
+theorem run520 : runSeg 16 44200 0 S0 = (S520, true) := runSeg_comp 16 44115 85 0 S0 S519 S520 run519 seg519
+theorem run521 : runSeg 16 44285 0 S0 = (S521, true) := runSeg_comp 16 44200 85 0 S0 S520 S521 run520 seg520
+theorem run522 : runSeg 16 44370 0 S0 = (S522, true) := runSeg_comp 16 44285 85 0 S0 S521 S522 run521 seg521
+theorem run523 : runSeg 16 44455 0 S0 = (S523, true) := runSeg_comp 16 44370 85 0 S0 S522 S523 run522 seg522
+theorem run524 : runSeg 16 44540 0 S0 = (S524, true) := runSeg_comp 16 44455 85 0 S0 S523 S524 run523 seg523
+theorem run525 : runSeg 16 44625 0 S0 = (S525, true) := runSeg_comp 16 44540 85 0 S0 S524 S525 run524 seg524
+theorem run526 : runSeg 16 44710 0 S0 = (S526, true) := runSeg_comp 16 44625 85 0 S0 S525 S526 run525 seg525
+theorem run527 : runSeg 16 44795 0 S0 = (S527, true) := runSeg_comp 16 44710 85 0 S0 S526 S527 run526 seg526
+theorem run528 : runSeg 16 44880 0 S0 = (S528, true) := runSeg_comp 16 44795 85 0 S0 S527 S528 run527 seg527
+theorem run529 : runSeg 16 44965 0 S0 = (S529, true) := runSeg_comp 16 44880 85 0 S0 S528 S529 run528 seg528
+theorem run530 : runSeg 16 45050 0 S0 = (S530, true) := runSeg_comp 16 44965 85 0 S0 S529 S530 run529 seg529
+theorem run531 : runSeg 16 45135 0 S0 = (S531, true) := runSeg_comp 16 45050 85 0 S0 S530 S531 run530 seg530
+theorem run532 : runSeg 16 45220 0 S0 = (S532, true) := runSeg_comp 16 45135 85 0 S0 S531 S532 run531 seg531
+theorem run533 : runSeg 16 45305 0 S0 = (S533, true) := runSeg_comp 16 45220 85 0 S0 S532 S533 run532 seg532
+theorem run534 : runSeg 16 45390 0 S0 = (S534, true) := runSeg_comp 16 45305 85 0 S0 S533 S534 run533 seg533
+theorem run535 : runSeg 16 45475 0 S0 = (S535, true) := runSeg_comp 16 45390 85 0 S0 S534 S535 run534 seg534
+theorem run536 : runSeg 16 45560 0 S0 = (S536, true) := runSeg_comp 16 45475 85 0 S0 S535 S536 run535 seg535
+theorem run537 : runSeg 16 45645 0 S0 = (S537, true) := runSeg_comp 16 45560 85 0 S0 S536 S537 run536 seg536
+theorem run538 : runSeg 16 45730 0 S0 = (S538, true) := runSeg_comp 16 45645 85 0 S0 S537 S538 run537 seg537
+theorem run539 : runSeg 16 45815 0 S0 = (S539, true) := runSeg_comp 16 45730 85 0 S0 S538 S539 run538 seg538
+theorem run540 : runSeg 16 45900 0 S0 = (S540, true) := runSeg_comp 16 45815 85 0 S0 S539 S540 run539 seg539
+theorem run541 : runSeg 16 45985 0 S0 = (S541, true) := runSeg_comp 16 45900 85 0 S0 S540 S541 run540 seg540
+theorem run542 : runSeg 16 46070 0 S0 = (S542, true) := runSeg_comp 16 45985 85 0 S0 S541 S542 run541 seg541
+theorem run543 : runSeg 16 46155 0 S0 = (S543, true) := runSeg_comp 16 46070 85 0 S0 S542 S543 run542 seg542
+theorem run544 : runSeg 16 46240 0 S0 = (S544, true) := runSeg_comp 16 46155 85 0 S0 S543 S544 run543 seg543
+theorem run545 : runSeg 16 46325 0 S0 = (S545, true) := runSeg_comp 16 46240 85 0 S0 S544 S545 run544 seg544
+theorem run546 : runSeg 16 46410 0 S0 = (S546, true) := runSeg_comp 16 46325 85 0 S0 S545 S546 run545 seg545
+theorem run547 : runSeg 16 46495 0 S0 = (S547, true) := runSeg_comp 16 46410 85 0 S0 S546 S547 run546 seg546
+theorem run548 : runSeg 16 46580 0 S0 = (S548, true) := runSeg_comp 16 46495 85 0 S0 S547 S548 run547 seg547
+theorem run549 : runSeg 16 46665 0 S0 = (S549, true) := runSeg_comp 16 46580 85 0 S0 S548 S549 run548 seg548
+theorem run550 : runSeg 16 46750 0 S0 = (S550, true) := runSeg_comp 16 46665 85 0 S0 S549 S550 run549 seg549
+theorem run551 : runSeg 16 46835 0 S0 = (S551, true) := runSeg_comp 16 46750 85 0 S0 S550 S551 run550 seg550
+theorem run552 : runSeg 16 46920 0 S0 = (S552, true) := runSeg_comp 16 46835 85 0 S0 S551 S552 run551 seg551
+theorem run553 : runSeg 16 47005 0 S0 = (S553, true) := runSeg_comp 16 46920 85 0 S0 S552 S553 run552 seg552
+theorem run554 : runSeg 16 47090 0 S0 = (S554, true) := runSeg_comp 16 47005 85 0 S0 S553 S554 run553 seg553
+theorem run555 : runSeg 16 47175 0 S0 = (S555, true) := runSeg_comp 16 47090 85 0 S0 S554 S555 run554 seg554
+theorem run556 : runSeg 16 47260 0 S0 = (S556, true) := runSeg_comp 16 47175 85 0 S0 S555 S556 run555 seg555
+theorem run557 : runSeg 16 47345 0 S0 = (S557, true) := runSeg_comp 16 47260 85 0 S0 S556 S557 run556 seg556
+theorem run558 : runSeg 16 47430 0 S0 = (S558, true) := runSeg_comp 16 47345 85 0 S0 S557 S558 run557 seg557
+theorem run559 : runSeg 16 47515 0 S0 = (S559, true) := runSeg_comp 16 47430 85 0 S0 S558 S559 run558 seg558
+theorem run560 : runSeg 16 47600 0 S0 = (S560, true) := runSeg_comp 16 47515 85 0 S0 S559 S560 run559 seg559
+theorem run561 : runSeg 16 47685 0 S0 = (S561, true) := runSeg_comp 16 47600 85 0 S0 S560 S561 run560 seg560
+theorem run562 : runSeg 16 47770 0 S0 = (S562, true) := runSeg_comp 16 47685 85 0 S0 S561 S562 run561 seg561
+theorem run563 : runSeg 16 47855 0 S0 = (S563, true) := runSeg_comp 16 47770 85 0 S0 S562 S563 run562 seg562
+theorem run564 : runSeg 16 47940 0 S0 = (S564, true) := runSeg_comp 16 47855 85 0 S0 S563 S564 run563 seg563
+theorem run565 : runSeg 16 48025 0 S0 = (S565, true) := runSeg_comp 16 47940 85 0 S0 S564 S565 run564 seg564
+theorem run566 : runSeg 16 48110 0 S0 = (S566, true) := runSeg_comp 16 48025 85 0 S0 S565 S566 run565 seg565
+theorem run567 : runSeg 16 48195 0 S0 = (S567, true) := runSeg_comp 16 48110 85 0 S0 S566 S567 run566 seg566
+theorem run568 : runSeg 16 48280 0 S0 = (S568, true) := runSeg_comp 16 48195 85 0 S0 S567 S568 run567 seg567
+theorem run569 : runSeg 16 48365 0 S0 = (S569, true) := runSeg_comp 16 48280 85 0 S0 S568 S569 run568 seg568
+theorem run570 : runSeg 16 48450 0 S0 = (S570, true) := runSeg_comp 16 48365 85 0 S0 S569 S570 run569 seg569
+theorem run571 : runSeg 16 48535 0 S0 = (S571, true) := runSeg_comp 16 48450 85 0 S0 S570 S571 run570 seg570
+theorem run572 : runSeg 16 48620 0 S0 = (S572, true) := runSeg_comp 16 48535 85 0 S0 S571 S572 run571 seg571
+theorem run573 : runSeg 16 48705 0 S0 = (S573, true) := runSeg_comp 16 48620 85 0 S0 S572 S573 run572 seg572
+theorem run574 : runSeg 16 48790 0 S0 = (S574, true) := runSeg_comp 16 48705 85 0 S0 S573 S574 run573 seg573
+theorem run575 : runSeg 16 48875 0 S0 = (S575, true) := runSeg_comp 16 48790 85 0 S0 S574 S575 run574 seg574
+theorem run576 : runSeg 16 48960 0 S0 = (S576, true) := runSeg_comp 16 48875 85 0 S0 S575 S576 run575 seg575
+theorem run577 : runSeg 16 49045 0 S0 = (S577, true) := runSeg_comp 16 48960 85 0 S0 S576 S577 run576 seg576
+theorem run578 : runSeg 16 49130 0 S0 = (S578, true) := runSeg_comp 16 49045 85 0 S0 S577 S578 run577 seg577
+theorem run579 : runSeg 16 49215 0 S0 = (S579, true) := runSeg_comp 16 49130 85 0 S0 S578 S579 run578 seg578
+theorem run580 : runSeg 16 49300 0 S0 = (S580, true) := runSeg_comp 16 49215 85 0 S0 S579 S580 run579 seg579
+theorem run581 : runSeg 16 49385 0 S0 = (S581, true) := runSeg_comp 16 49300 85 0 S0 S580 S581 run580 seg580
+theorem run582 : runSeg 16 49470 0 S0 = (S582, true) := runSeg_comp 16 49385 85 0 S0 S581 S582 run581 seg581
+theorem run583 : runSeg 16 49555 0 S0 = (S583, true) := runSeg_comp 16 49470 85 0 S0 S582 S583 run582 seg582
+theorem run584 : runSeg 16 49640 0 S0 = (S584, true) := runSeg_comp 16 49555 85 0 S0 S583 S584 run583 seg583
+theorem run585 : runSeg 16 49725 0 S0 = (S585, true) := runSeg_comp 16 49640 85 0 S0 S584 S585 run584 seg584
+theorem run586 : runSeg 16 49810 0 S0 = (S586, true) := runSeg_comp 16 49725 85 0 S0 S585 S586 run585 seg585
+theorem run587 : runSeg 16 49895 0 S0 = (S587, true) := runSeg_comp 16 49810 85 0 S0 S586 S587 run586 seg586
+theorem run588 : runSeg 16 49980 0 S0 = (S588, true) := runSeg_comp 16 49895 85 0 S0 S587 S588 run587 seg587
+theorem run589 : runSeg 16 50065 0 S0 = (S589, true) := runSeg_comp 16 49980 85 0 S0 S588 S589 run588 seg588
+theorem run590 : runSeg 16 50150 0 S0 = (S590, true) := runSeg_comp 16 50065 85 0 S0 S589 S590 run589 seg589
+theorem run591 : runSeg 16 50235 0 S0 = (S591, true) := runSeg_comp 16 50150 85 0 S0 S590 S591 run590 seg590
+theorem run592 : runSeg 16 50320 0 S0 = (S592, true) := runSeg_comp 16 50235 85 0 S0 S591 S592 run591 seg591
+theorem run593 : runSeg 16 50405 0 S0 = (S593, true) := runSeg_comp 16 50320 85 0 S0 S592 S593 run592 seg592
+theorem run594 : runSeg 16 50490 0 S0 = (S594, true) := runSeg_comp 16 50405 85 0 S0 S593 S594 run593 seg593
+theorem run595 : runSeg 16 50575 0 S0 = (S595, true) := runSeg_comp 16 50490 85 0 S0 S594 S595 run594 seg594
+theorem run596 : runSeg 16 50660 0 S0 = (S596, true) := runSeg_comp 16 50575 85 0 S0 S595 S596 run595 seg595
+theorem run597 : runSeg 16 50745 0 S0 = (S597, true) := runSeg_comp 16 50660 85 0 S0 S596 S597 run596 seg596
+theorem run598 : runSeg 16 50830 0 S0 = (S598, true) := runSeg_comp 16 50745 85 0 S0 S597 S598 run597 seg597
+theorem run599 : runSeg 16 50915 0 S0 = (S599, true) := runSeg_comp 16 50830 85 0 S0 S598 S599 run598 seg598
+theorem run600 : runSeg 16 51000 0 S0 = (S600, true) := runSeg_comp 16 50915 85 0 S0 S599 S600 run599 seg599
+theorem run601 : runSeg 16 51085 0 S0 = (S601, true) := runSeg_comp 16 51000 85 0 S0 S600 S601 run600 seg600
+theorem run602 : runSeg 16 51170 0 S0 = (S602, true) := runSeg_comp 16 51085 85 0 S0 S601 S602 run601 seg601
+theorem run603 : runSeg 16 51255 0 S0 = (S603, true) := runSeg_comp 16 51170 85 0 S0 S602 S603 run602 seg602
+theorem run604 : runSeg 16 51340 0 S0 = (S604, true) := runSeg_comp 16 51255 85 0 S0 S603 S604 run603 seg603
+theorem run605 : runSeg 16 51425 0 S0 = (S605, true) := runSeg_comp 16 51340 85 0 S0 S604 S605 run604 seg604
+theorem run606 : runSeg 16 51510 0 S0 = (S606, true) := runSeg_comp 16 51425 85 0 S0 S605 S606 run605 seg605
+theorem run607 : runSeg 16 51595 0 S0 = (S607, true) := runSeg_comp 16 51510 85 0 S0 S606 S607 run606 seg606
+theorem run608 : runSeg 16 51680 0 S0 = (S608, true) := runSeg_comp 16 51595 85 0 S0 S607 S608 run607 seg607
+theorem run609 : runSeg 16 51765 0 S0 = (S609, true) := runSeg_comp 16 51680 85 0 S0 S608 S609 run608 seg608
+theorem run610 : runSeg 16 51850 0 S0 = (S610, true) := runSeg_comp 16 51765 85 0 S0 S609 S610 run609 seg609
+theorem run611 : runSeg 16 51935 0 S0 = (S611, true) := runSeg_comp 16 51850 85 0 S0 S610 S611 run610 seg610
+theorem run612 : runSeg 16 52020 0 S0 = (S612, true) := runSeg_comp 16 51935 85 0 S0 S611 S612 run611 seg611
+theorem run613 : runSeg 16 52105 0 S0 = (S613, true) := runSeg_comp 16 52020 85 0 S0 S612 S613 run612 seg612
+theorem run614 : runSeg 16 52190 0 S0 = (S614, true) := runSeg_comp 16 52105 85 0 S0 S613 S614 run613 seg613
+theorem run615 : runSeg 16 52275 0 S0 = (S615, true) := runSeg_comp 16 52190 85 0 S0 S614 S615 run614 seg614
+theorem run616 : runSeg 16 52360 0 S0 = (S616, true) := runSeg_comp 16 52275 85 0 S0 S615 S616 run615 seg615
+theorem run617 : runSeg 16 52445 0 S0 = (S617, true) := runSeg_comp 16 52360 85 0 S0 S616 S617 run616 seg616
+theorem run618 : runSeg 16 52530 0 S0 = (S618, true) := runSeg_comp 16 52445 85 0 S0 S617 S618 run617 seg617
+theorem run619 : runSeg 16 52615 0 S0 = (S619, true) := runSeg_comp 16 52530 85 0 S0 S618 S619 run618 seg618
+theorem run620 : runSeg 16 52700 0 S0 = (S620, true) := runSeg_comp 16 52615 85 0 S0 S619 S620 run619 seg619
+theorem run621 : runSeg 16 52785 0 S0 = (S621, true) := runSeg_comp 16 52700 85 0 S0 S620 S621 run620 seg620
+theorem run622 : runSeg 16 52870 0 S0 = (S622, true) := runSeg_comp 16 52785 85 0 S0 S621 S622 run621 seg621
+theorem run623 : runSeg 16 52955 0 S0 = (S623, true) := runSeg_comp 16 52870 85 0 S0 S622 S623 run622 seg622
+theorem run624 : runSeg 16 53040 0 S0 = (S624, true) := runSeg_comp 16 52955 85 0 S0 S623 S624 run623 seg623
+theorem run625 : runSeg 16 53125 0 S0 = (S625, true) := runSeg_comp 16 53040 85 0 S0 S624 S625 run624 seg624
+theorem run626 : runSeg 16 53210 0 S0 = (S626, true) := runSeg_comp 16 53125 85 0 S0 S625 S626 run625 seg625
+theorem run627 : runSeg 16 53295 0 S0 = (S627, true) := runSeg_comp 16 53210 85 0 S0 S626 S627 run626 seg626
+theorem run628 : runSeg 16 53380 0 S0 = (S628, true) := runSeg_comp 16 53295 85 0 S0 S627 S628 run627 seg627
+theorem run629 : runSeg 16 53465 0 S0 = (S629, true) := runSeg_comp 16 53380 85 0 S0 S628 S629 run628 seg628
+theorem run630 : runSeg 16 53550 0 S0 = (S630, true) := runSeg_comp 16 53465 85 0 S0 S629 S630 run629 seg629
+theorem run631 : runSeg 16 53635 0 S0 = (S631, true) := runSeg_comp 16 53550 85 0 S0 S630 S631 run630 seg630
+theorem run632 : runSeg 16 53720 0 S0 = (S632, true) := runSeg_comp 16 53635 85 0 S0 S631 S632 run631 seg631
+theorem run633 : runSeg 16 53805 0 S0 = (S633, true) := runSeg_comp 16 53720 85 0 S0 S632 S633 run632 seg632
+theorem run634 : runSeg 16 53890 0 S0 = (S634, true) := runSeg_comp 16 53805 85 0 S0 S633 S634 run633 seg633
+theorem run635 : runSeg 16 53975 0 S0 = (S635, true) := runSeg_comp 16 53890 85 0 S0 S634 S635 run634 seg634
+theorem run636 : runSeg 16 54060 0 S0 = (S636, true) := runSeg_comp 16 53975 85 0 S0 S635 S636 run635 seg635
+theorem run637 : runSeg 16 54145 0 S0 = (S637, true) := runSeg_comp 16 54060 85 0 S0 S636 S637 run636 seg636
+theorem run638 : runSeg 16 54230 0 S0 = (S638, true) := runSeg_comp 16 54145 85 0 S0 S637 S638 run637 seg637
+theorem run639 : runSeg 16 54315 0 S0 = (S639, true) := runSeg_comp 16 54230 85 0 S0 S638 S639 run638 seg638
+theorem run640 : runSeg 16 54400 0 S0 = (S640, true) := runSeg_comp 16 54315 85 0 S0 S639 S640 run639 seg639
+theorem run641 : runSeg 16 54485 0 S0 = (S641, true) := runSeg_comp 16 54400 85 0 S0 S640 S641 run640 seg640
+theorem run642 : runSeg 16 54570 0 S0 = (S642, true) := runSeg_comp 16 54485 85 0 S0 S641 S642 run641 seg641
+theorem run643 : runSeg 16 54655 0 S0 = (S643, true) := runSeg_comp 16 54570 85 0 S0 S642 S643 run642 seg642
+theorem run644 : runSeg 16 54740 0 S0 = (S644, true) := runSeg_comp 16 54655 85 0 S0 S643 S644 run643 seg643
+theorem run645 : runSeg 16 54825 0 S0 = (S645, true) := runSeg_comp 16 54740 85 0 S0 S644 S645 run644 seg644
+theorem run646 : runSeg 16 54910 0 S0 = (S646, true) := runSeg_comp 16 54825 85 0 S0 S645 S646 run645 seg645
+theorem run647 : runSeg 16 54995 0 S0 = (S647, true) := runSeg_comp 16 54910 85 0 S0 S646 S647 run646 seg646
+theorem run648 : runSeg 16 55080 0 S0 = (S648, true) := runSeg_comp 16 54995 85 0 S0 S647 S648 run647 seg647
+theorem run649 : runSeg 16 55165 0 S0 = (S649, true) := runSeg_comp 16 55080 85 0 S0 S648 S649 run648 seg648
+theorem run650 : runSeg 16 55250 0 S0 = (S650, true) := runSeg_comp 16 55165 85 0 S0 S649 S650 run649 seg649
+theorem run651 : runSeg 16 55335 0 S0 = (S651, true) := runSeg_comp 16 55250 85 0 S0 S650 S651 run650 seg650
+theorem run652 : runSeg 16 55420 0 S0 = (S652, true) := runSeg_comp 16 55335 85 0 S0 S651 S652 run651 seg651
+theorem run653 : runSeg 16 55505 0 S0 = (S653, true) := runSeg_comp 16 55420 85 0 S0 S652 S653 run652 seg652
+theorem run654 : runSeg 16 55590 0 S0 = (S654, true) := runSeg_comp 16 55505 85 0 S0 S653 S654 run653 seg653
+theorem run655 : runSeg 16 55675 0 S0 = (S655, true) := runSeg_comp 16 55590 85 0 S0 S654 S655 run654 seg654
+theorem run656 : runSeg 16 55760 0 S0 = (S656, true) := runSeg_comp 16 55675 85 0 S0 S655 S656 run655 seg655
+theorem run657 : runSeg 16 55845 0 S0 = (S657, true) := runSeg_comp 16 55760 85 0 S0 S656 S657 run656 seg656
+theorem run658 : runSeg 16 55930 0 S0 = (S658, true) := runSeg_comp 16 55845 85 0 S0 S657 S658 run657 seg657
+theorem run659 : runSeg 16 56015 0 S0 = (S659, true) := runSeg_comp 16 55930 85 0 S0 S658 S659 run658 seg658
+theorem run660 : runSeg 16 56100 0 S0 = (S660, true) := runSeg_comp 16 56015 85 0 S0 S659 S660 run659 seg659
+theorem run661 : runSeg 16 56185 0 S0 = (S661, true) := runSeg_comp 16 56100 85 0 S0 S660 S661 run660 seg660
+theorem run662 : runSeg 16 56270 0 S0 = (S662, true) := runSeg_comp 16 56185 85 0 S0 S661 S662 run661 seg661
+theorem run663 : runSeg 16 56355 0 S0 = (S663, true) := runSeg_comp 16 56270 85 0 S0 S662 S663 run662 seg662
+theorem run664 : runSeg 16 56440 0 S0 = (S664, true) := runSeg_comp 16 56355 85 0 S0 S663 S664 run663 seg663
+theorem run665 : runSeg 16 56525 0 S0 = (S665, true) := runSeg_comp 16 56440 85 0 S0 S664 S665 run664 seg664
+theorem run666 : runSeg 16 56610 0 S0 = (S666, true) := runSeg_comp 16 56525 85 0 S0 S665 S666 run665 seg665
+theorem run667 : runSeg 16 56695 0 S0 = (S667, true) := runSeg_comp 16 56610 85 0 S0 S666 S667 run666 seg666
+theorem run668 : runSeg 16 56780 0 S0 = (S668, true) := runSeg_comp 16 56695 85 0 S0 S667 S668 run667 seg667
+theorem run669 : runSeg 16 56865 0 S0 = (S669, true) := runSeg_comp 16 56780 85 0 S0 S668 S669 run668 seg668
+theorem run670 : runSeg 16 56950 0 S0 = (S670, true) := runSeg_comp 16 56865 85 0 S0 S669 S670 run669 seg669
+theorem run671 : runSeg 16 57035 0 S0 = (S671, true) := runSeg_comp 16 56950 85 0 S0 S670 S671 run670 seg670
+theorem run672 : runSeg 16 57120 0 S0 = (S672, true) := runSeg_comp 16 57035 85 0 S0 S671 S672 run671 seg671
+theorem run673 : runSeg 16 57205 0 S0 = (S673, true) := runSeg_comp 16 57120 85 0 S0 S672 S673 run672 seg672
+theorem run674 : runSeg 16 57290 0 S0 = (S674, true) := runSeg_comp 16 57205 85 0 S0 S673 S674 run673 seg673
+theorem run675 : runSeg 16 57375 0 S0 = (S675, true) := runSeg_comp 16 57290 85 0 S0 S674 S675 run674 seg674
+theorem run676 : runSeg 16 57460 0 S0 = (S676, true) := runSeg_comp 16 57375 85 0 S0 S675 S676 run675 seg675
+theorem run677 : runSeg 16 57545 0 S0 = (S677, true) := runSeg_comp 16 57460 85 0 S0 S676 S677 run676 seg676
+theorem run678 : runSeg 16 57630 0 S0 = (S678, true) := runSeg_comp 16 57545 85 0 S0 S677 S678 run677 seg677
+theorem run679 : runSeg 16 57715 0 S0 = (S679, true) := runSeg_comp 16 57630 85 0 S0 S678 S679 run678 seg678
+theorem run680 : runSeg 16 57800 0 S0 = (S680, true) := runSeg_comp 16 57715 85 0 S0 S679 S680 run679 seg679
+theorem run681 : runSeg 16 57885 0 S0 = (S681, true) := runSeg_comp 16 57800 85 0 S0 S680 S681 run680 seg680
+theorem run682 : runSeg 16 57970 0 S0 = (S682, true) := runSeg_comp 16 57885 85 0 S0 S681 S682 run681 seg681
+theorem run683 : runSeg 16 58055 0 S0 = (S683, true) := runSeg_comp 16 57970 85 0 S0 S682 S683 run682 seg682
+theorem run684 : runSeg 16 58140 0 S0 = (S684, true) := runSeg_comp 16 58055 85 0 S0 S683 S684 run683 seg683
+theorem run685 : runSeg 16 58225 0 S0 = (S685, true) := runSeg_comp 16 58140 85 0 S0 S684 S685 run684 seg684
+theorem run686 : runSeg 16 58310 0 S0 = (S686, true) := runSeg_comp 16 58225 85 0 S0 S685 S686 run685 seg685
+theorem run687 : runSeg 16 58395 0 S0 = (S687, true) := runSeg_comp 16 58310 85 0 S0 S686 S687 run686 seg686
+theorem run688 : runSeg 16 58480 0 S0 = (S688, true) := runSeg_comp 16 58395 85 0 S0 S687 S688 run687 seg687
+theorem run689 : runSeg 16 58565 0 S0 = (S689, true) := runSeg_comp 16 58480 85 0 S0 S688 S689 run688 seg688
+theorem run690 : runSeg 16 58650 0 S0 = (S690, true) := runSeg_comp 16 58565 85 0 S0 S689 S690 run689 seg689
+theorem run691 : runSeg 16 58735 0 S0 = (S691, true) := runSeg_comp 16 58650 85 0 S0 S690 S691 run690 seg690
+theorem run692 : runSeg 16 58820 0 S0 = (S692, true) := runSeg_comp 16 58735 85 0 S0 S691 S692 run691 seg691
+theorem run693 : runSeg 16 58905 0 S0 = (S693, true) := runSeg_comp 16 58820 85 0 S0 S692 S693 run692 seg692
+theorem run694 : runSeg 16 58990 0 S0 = (S694, true) := runSeg_comp 16 58905 85 0 S0 S693 S694 run693 seg693
+theorem run695 : runSeg 16 59075 0 S0 = (S695, true) := runSeg_comp 16 58990 85 0 S0 S694 S695 run694 seg694
+theorem run696 : runSeg 16 59160 0 S0 = (S696, true) := runSeg_comp 16 59075 85 0 S0 S695 S696 run695 seg695
+theorem run697 : runSeg 16 59245 0 S0 = (S697, true) := runSeg_comp 16 59160 85 0 S0 S696 S697 run696 seg696
+theorem run698 : runSeg 16 59330 0 S0 = (S698, true) := runSeg_comp 16 59245 85 0 S0 S697 S698 run697 seg697
+theorem run699 : runSeg 16 59415 0 S0 = (S699, true) := runSeg_comp 16 59330 85 0 S0 S698 S699 run698 seg698
+theorem run700 : runSeg 16 59500 0 S0 = (S700, true) := runSeg_comp 16 59415 85 0 S0 S699 S700 run699 seg699
+theorem run701 : runSeg 16 59585 0 S0 = (S701, true) := runSeg_comp 16 59500 85 0 S0 S700 S701 run700 seg700
+theorem run702 : runSeg 16 59670 0 S0 = (S702, true) := runSeg_comp 16 59585 85 0 S0 S701 S702 run701 seg701
+theorem run703 : runSeg 16 59755 0 S0 = (S703, true) := runSeg_comp 16 59670 85 0 S0 S702 S703 run702 seg702
+theorem run704 : runSeg 16 59840 0 S0 = (S704, true) := runSeg_comp 16 59755 85 0 S0 S703 S704 run703 seg703
+theorem run705 : runSeg 16 59925 0 S0 = (S705, true) := runSeg_comp 16 59840 85 0 S0 S704 S705 run704 seg704
+theorem run706 : runSeg 16 60010 0 S0 = (S706, true) := runSeg_comp 16 59925 85 0 S0 S705 S706 run705 seg705
+theorem run707 : runSeg 16 60095 0 S0 = (S707, true) := runSeg_comp 16 60010 85 0 S0 S706 S707 run706 seg706
+theorem run708 : runSeg 16 60180 0 S0 = (S708, true) := runSeg_comp 16 60095 85 0 S0 S707 S708 run707 seg707
+theorem run709 : runSeg 16 60265 0 S0 = (S709, true) := runSeg_comp 16 60180 85 0 S0 S708 S709 run708 seg708
+theorem run710 : runSeg 16 60350 0 S0 = (S710, true) := runSeg_comp 16 60265 85 0 S0 S709 S710 run709 seg709
+theorem run711 : runSeg 16 60435 0 S0 = (S711, true) := runSeg_comp 16 60350 85 0 S0 S710 S711 run710 seg710
+theorem run712 : runSeg 16 60520 0 S0 = (S712, true) := runSeg_comp 16 60435 85 0 S0 S711 S712 run711 seg711
+theorem run713 : runSeg 16 60605 0 S0 = (S713, true) := runSeg_comp 16 60520 85 0 S0 S712 S713 run712 seg712
+theorem run714 : runSeg 16 60690 0 S0 = (S714, true) := runSeg_comp 16 60605 85 0 S0 S713 S714 run713 seg713
+theorem run715 : runSeg 16 60775 0 S0 = (S715, true) := runSeg_comp 16 60690 85 0 S0 S714 S715 run714 seg714
+theorem run716 : runSeg 16 60860 0 S0 = (S716, true) := runSeg_comp 16 60775 85 0 S0 S715 S716 run715 seg715
+theorem run717 : runSeg 16 60945 0 S0 = (S717, true) := runSeg_comp 16 60860 85 0 S0 S716 S717 run716 seg716
+theorem run718 : runSeg 16 61030 0 S0 = (S718, true) := runSeg_comp 16 60945 85 0 S0 S717 S718 run717 seg717
+theorem run719 : runSeg 16 61115 0 S0 = (S719, true) := runSeg_comp 16 61030 85 0 S0 S718 S719 run718 seg718
+theorem run720 : runSeg 16 61200 0 S0 = (S720, true) := runSeg_comp 16 61115 85 0 S0 S719 S720 run719 seg719
+theorem run721 : runSeg 16 61285 0 S0 = (S721, true) := runSeg_comp 16 61200 85 0 S0 S720 S721 run720 seg720
+theorem run722 : runSeg 16 61370 0 S0 = (S722, true) := runSeg_comp 16 61285 85 0 S0 S721 S722 run721 seg721
+theorem run723 : runSeg 16 61455 0 S0 = (S723, true) := runSeg_comp 16 61370 85 0 S0 S722 S723 run722 seg722
+theorem run724 : runSeg 16 61540 0 S0 = (S724, true) := runSeg_comp 16 61455 85 0 S0 S723 S724 run723 seg723
+theorem run725 : runSeg 16 61625 0 S0 = (S725, true) := runSeg_comp 16 61540 85 0 S0 S724 S725 run724 seg724
+theorem run726 : runSeg 16 61710 0 S0 = (S726, true) := runSeg_comp 16 61625 85 0 S0 S725 S726 run725 seg725
+theorem run727 : runSeg 16 61795 0 S0 = (S727, true) := runSeg_comp 16 61710 85 0 S0 S726 S727 run726 seg726
+theorem run728 : runSeg 16 61880 0 S0 = (S728, true) := runSeg_comp 16 61795 85 0 S0 S727 S728 run727 seg727
+theorem run729 : runSeg 16 61965 0 S0 = (S729, true) := runSeg_comp 16 61880 85 0 S0 S728 S729 run728 seg728
+theorem run730 : runSeg 16 62050 0 S0 = (S730, true) := runSeg_comp 16 61965 85 0 S0 S729 S730 run729 seg729
+theorem run731 : runSeg 16 62135 0 S0 = (S731, true) := runSeg_comp 16 62050 85 0 S0 S730 S731 run730 seg730
+theorem run732 : runSeg 16 62220 0 S0 = (S732, true) := runSeg_comp 16 62135 85 0 S0 S731 S732 run731 seg731
+theorem run733 : runSeg 16 62305 0 S0 = (S733, true) := runSeg_comp 16 62220 85 0 S0 S732 S733 run732 seg732
+theorem run734 : runSeg 16 62390 0 S0 = (S734, true) := runSeg_comp 16 62305 85 0 S0 S733 S734 run733 seg733
+theorem run735 : runSeg 16 62475 0 S0 = (S735, true) := runSeg_comp 16 62390 85 0 S0 S734 S735 run734 seg734
+theorem run736 : runSeg 16 62560 0 S0 = (S736, true) := runSeg_comp 16 62475 85 0 S0 S735 S736 run735 seg735
+theorem run737 : runSeg 16 62645 0 S0 = (S737, true) := runSeg_comp 16 62560 85 0 S0 S736 S737 run736 seg736
+theorem run738 : runSeg 16 62730 0 S0 = (S738, true) := runSeg_comp 16 62645 85 0 S0 S737 S738 run737 seg737
+theorem run739 : runSeg 16 62815 0 S0 = (S739, true) := runSeg_comp 16 62730 85 0 S0 S738 S739 run738 seg738
+theorem run740 : runSeg 16 62900 0 S0 = (S740, true) := runSeg_comp 16 62815 85 0 S0 S739 S740 run739 seg739
+theorem run741 : runSeg 16 62985 0 S0 = (S741, true) := runSeg_comp 16 62900 85 0 S0 S740 S741 run740 seg740
+theorem run742 : runSeg 16 63070 0 S0 = (S742, true) := runSeg_comp 16 62985 85 0 S0 S741 S742 run741 seg741
+theorem run743 : runSeg 16 63155 0 S0 = (S743, true) := runSeg_comp 16 63070 85 0 S0 S742 S743 run742 seg742
+theorem run744 : runSeg 16 63240 0 S0 = (S744, true) := runSeg_comp 16 63155 85 0 S0 S743 S744 run743 seg743
+theorem run745 : runSeg 16 63325 0 S0 = (S745, true) := runSeg_comp 16 63240 85 0 S0 S744 S745 run744 seg744
+theorem run746 : runSeg 16 63410 0 S0 = (S746, true) := runSeg_comp 16 63325 85 0 S0 S745 S746 run745 seg745
+theorem run747 : runSeg 16 63495 0 S0 = (S747, true) := runSeg_comp 16 63410 85 0 S0 S746 S747 run746 seg746
+theorem run748 : runSeg 16 63580 0 S0 = (S748, true) := runSeg_comp 16 63495 85 0 S0 S747 S748 run747 seg747
+theorem run749 : runSeg 16 63665 0 S0 = (S749, true) := runSeg_comp 16 63580 85 0 S0 S748 S749 run748 seg748
+theorem run750 : runSeg 16 63750 0 S0 = (S750, true) := runSeg_comp 16 63665 85 0 S0 S749 S750 run749 seg749
+theorem run751 : runSeg 16 63835 0 S0 = (S751, true) := runSeg_comp 16 63750 85 0 S0 S750 S751 run750 seg750
+theorem run752 : runSeg 16 63920 0 S0 = (S752, true) := runSeg_comp 16 63835 85 0 S0 S751 S752 run751 seg751
+theorem run753 : runSeg 16 64005 0 S0 = (S753, true) := runSeg_comp 16 63920 85 0 S0 S752 S753 run752 seg752
+theorem run754 : runSeg 16 64090 0 S0 = (S754, true) := runSeg_comp 16 64005 85 0 S0 S753 S754 run753 seg753
+theorem run755 : runSeg 16 64175 0 S0 = (S755, true) := runSeg_comp 16 64090 85 0 S0 S754 S755 run754 seg754
+theorem run756 : runSeg 16 64260 0 S0 = (S756, true) := runSeg_comp 16 64175 85 0 S0 S755 S756 run755 seg755
+theorem run757 : runSeg 16 64345 0 S0 = (S757, true) := runSeg_comp 16 64260 85 0 S0 S756 S757 run756 seg756
+theorem run758 : runSeg 16 64430 0 S0 = (S758, true) := runSeg_comp 16 64345 85 0 S0 S757 S758 run757 seg757
+theorem run759 : runSeg 16 64515 0 S0 = (S759, true) := runSeg_comp 16 64430 85 0 S0 S758 S759 run758 seg758
+theorem run760 : runSeg 16 64600 0 S0 = (S760, true) := runSeg_comp 16 64515 85 0 S0 S759 S760 run759 seg759
+theorem run761 : runSeg 16 64685 0 S0 = (S761, true) := runSeg_comp 16 64600 85 0 S0 S760 S761 run760 seg760
+theorem run762 : runSeg 16 64770 0 S0 = (S762, true) := runSeg_comp 16 64685 85 0 S0 S761 S762 run761 seg761
+theorem run763 : runSeg 16 64855 0 S0 = (S763, true) := runSeg_comp 16 64770 85 0 S0 S762 S763 run762 seg762
+theorem run764 : runSeg 16 64940 0 S0 = (S764, true) := runSeg_comp 16 64855 85 0 S0 S763 S764 run763 seg763
+theorem run765 : runSeg 16 65025 0 S0 = (S765, true) := runSeg_comp 16 64940 85 0 S0 S764 S765 run764 seg764
+theorem run766 : runSeg 16 65110 0 S0 = (S766, true) := runSeg_comp 16 65025 85 0 S0 S765 S766 run765 seg765
+theorem run767 : runSeg 16 65195 0 S0 = (S767, true) := runSeg_comp 16 65110 85 0 S0 S766 S767 run766 seg766
+theorem run768 : runSeg 16 65280 0 S0 = (S768, true) := runSeg_comp 16 65195 85 0 S0 S767 S768 run767 seg767
+theorem run769 : runSeg 16 65365 0 S0 = (S769, true) := runSeg_comp 16 65280 85 0 S0 S768 S769 run768 seg768
+theorem run770 : runSeg 16 65450 0 S0 = (S770, true) := runSeg_comp 16 65365 85 0 S0 S769 S770 run769 seg769
+theorem run771 : runSeg 16 65535 0 S0 = (S771, true) := runSeg_comp 16 65450 85 0 S0 S770 S771 run770 seg770
 
 /-- the traversal of height 16 keeps the true authentication path at all 65536 indices -/
 theorem traversal : TraversalCorrect 16 :=
-  traversal_of_segments 16 85 771 S (by decide) setup segs last
+  traversal_of_run 16 65535 S0 S771 (by decide) setup run771 last
 end Qrl.BdsLabel.Seg16
